@@ -1,8 +1,11 @@
 /-
-  Proofs.C19Lz — lazily loaded records (NewDBExt with LoadData = false, no NO_CACHE flag). A non-volatile store `a`
-  some of whose records are not in memory is related to the store `g` that holds the same records with their data
-  (`Lz a g`): every operation acts on both in lock step — same file operations, same results — so that the analysis
-  of stores whose records are all in memory carries over.
+  Proofs.C19Lz — records that are not in memory: the NO_CACHE flag (`freerec` and sync() drop a record's data once it
+  is on disk, `load` skips it) and NewDBExt with LoadData = false. The real store `a` is related to its EAGER GHOST
+  `g` (`Lz P a g`): the store with the ghost field `eager = true`, which tests a flag bit that is never set instead
+  of NO_CACHE and therefore keeps every record's data in memory — while writing exactly the same bytes (the flags
+  are the same). Every operation acts on both in lock step: same file operations, same results; a record of `a`
+  that is not in memory loads to the ghost's record. The analysis of stores whose records are all in memory (all
+  other files) applies to the ghost.
 -/
 import GocoinV.Proofs.C19Lazy
 namespace GocoinV.Proofs.C19
@@ -134,48 +137,60 @@ theorem SubL.snoc {la lg : List (Key × Rec)} (h : SubL la lg) (k : Key) (ra rg 
       obtain ⟨rfl, hx, ht⟩ := h
       exact ⟨rfl, hx, ih ht⟩
 
-/-! ### the relation between the two stores -/
+/-! ### the relation between the real store and its eager ghost -/
 
-/-- the state outside the index -/
-def shell (d : DB) : DB := { d with index := [] }
+/-- the state outside the index and the ghost field -/
+def shell (d : DB) : DB := { d with index := [], eager := false }
 
-theorem shell_eq {a g : DB} (h : shell a = shell g) (idx : List (Key × Rec)) :
-    { a with index := idx } = { g with index := idx } := by
-  have := congrArg (fun d : DB => { d with index := idx }) h
-  exact this
-
-/-- `g` is `a` with every record's data in memory; a record of `a` that is not in memory is not pending -/
-structure Lz (a g : DB) : Prop where
+/-- `P`: the keys changed since they were last written (the pending set; for a volatile store its ghost).
+    `g` is `a` with every record's data in memory and the ghost field set; a record of `a` that is not in memory, or
+    that has a place on disk, is not in `P` -/
+structure Lz (P : List Key) (a g : DB) : Prop where
   sh : shell a = shell g
   idx : SubL a.index g.index
-  np : ∀ k r, ilookup k a.index = some r → r.data = none → k ∉ a.pending
+  np : ∀ k r, ilookup k a.index = some r → r.data = none → k ∉ P
+  pz : ∀ k r, ilookup k a.index = some r → r.pos ≠ 0 → k ∉ P
+  ge : g.eager = true
 
-theorem Lz.refl (a : DB) (hc : AllCached eg a.index) : Lz a a :=
-  ⟨rfl, SubL.refl _, fun k r hl hd => by
-    have := (allCached_lookup hc k r hl).1
-    rw [hd] at this; cases this⟩
+theorem Lz.fs {P : List Key} {a g : DB} (h : Lz P a g) : a.fs = g.fs := (congrArg DB.fs h.sh : (shell a).fs = (shell g).fs)
+theorem Lz.effs {P : List Key} {a g : DB} (h : Lz P a g) : a.effs = g.effs := (congrArg DB.effs h.sh : (shell a).effs = (shell g).effs)
+theorem Lz.pending {P : List Key} {a g : DB} (h : Lz P a g) : a.pending = g.pending := (congrArg DB.pending h.sh : (shell a).pending = (shell g).pending)
+theorem Lz.failed {P : List Key} {a g : DB} (h : Lz P a g) : a.failed = g.failed := (congrArg DB.failed h.sh : (shell a).failed = (shell g).failed)
+theorem Lz.volatile {P : List Key} {a g : DB} (h : Lz P a g) : a.volatile = g.volatile := (congrArg DB.volatile h.sh : (shell a).volatile = (shell g).volatile)
+theorem Lz.noSync {P : List Key} {a g : DB} (h : Lz P a g) : a.noSync = g.noSync := (congrArg DB.noSync h.sh : (shell a).noSync = (shell g).noSync)
+theorem Lz.dataSeq {P : List Key} {a g : DB} (h : Lz P a g) : a.dataSeq = g.dataSeq := (congrArg DB.dataSeq h.sh : (shell a).dataSeq = (shell g).dataSeq)
 
-theorem Lz.fs {a g : DB} (h : Lz a g) : a.fs = g.fs := (congrArg DB.fs h.sh : (shell a).fs = (shell g).fs)
-theorem Lz.effs {a g : DB} (h : Lz a g) : a.effs = g.effs := (congrArg DB.effs h.sh : (shell a).effs = (shell g).effs)
-theorem Lz.pending {a g : DB} (h : Lz a g) : a.pending = g.pending := (congrArg DB.pending h.sh : (shell a).pending = (shell g).pending)
-theorem Lz.failed {a g : DB} (h : Lz a g) : a.failed = g.failed := (congrArg DB.failed h.sh : (shell a).failed = (shell g).failed)
-theorem Lz.volatile {a g : DB} (h : Lz a g) : a.volatile = g.volatile := (congrArg DB.volatile h.sh : (shell a).volatile = (shell g).volatile)
+/-- `g` written over `a` -/
+def reidx (d : DB) (i : List (Key × Rec)) : DB := { d with index := i, eager := true }
 
-/-- a record of `a` that is not in memory can be loaded, and loading gives `g`'s record -/
-theorem Lz.loadrec {a g : DB} (h : Lz a g) (inv : DiskInv g) (k : Key) (ra rg : Rec)
-    (ha : ilookup k a.index = some ra) (hg : ilookup k g.index = some rg) (hs : Sub ra rg) :
-    loadrec a.fs ra = some rg := by
-  have hcg := allCached_lookup inv.cached.2 k rg hg
+theorem Lz.g_reidx {P : List Key} {a g : DB} (h : Lz P a g) : reidx a g.index = g := by
+  have := congrArg (fun d : DB => { d with index := g.index, eager := true }) h.sh
+  have hg : ({ shell g with index := g.index, eager := true } : DB) = g := by
+    have := h.ge
+    cases g
+    simp only at this
+    subst this
+    rfl
+  exact this.trans hg
+
+/-- every record of `a` loads to the ghost's record -/
+def Loads (a g : DB) : Prop :=
+  ∀ k ra rg, ilookup k a.index = some ra → ilookup k g.index = some rg → Sub ra rg → Qdb.loadrec a.fs ra = some rg
+
+/-- loading works when a store `G` with the ghost's index and directory, and `P` pending, satisfies the invariant -/
+theorem Lz.loads {P : List Key} {a g : DB} (h : Lz P a g) (G : DB) (hi : G.index = g.index) (hf : G.fs = g.fs)
+    (hp : G.pending = P) (inv : DiskInv G) : Loads a g := by
+  intro k ra rg ha hg hs
+  have hg' : ilookup k G.index = some rg := by rw [hi]; exact hg
+  have hcg := allCached_lookup inv.cached.2 k rg hg'
   rcases hs with rfl | hra
   · exact loadrec_cached a.fs ra hcg
-  · have hnp : k ∉ g.pending := by
-      rw [← h.pending]
-      exact h.np k ra ha (by rw [hra])
-    obtain ⟨f, hf, hrb⟩ := inv.files k rg hnp hg
+  · have hnp : k ∉ G.pending := by rw [hp]; exact h.np k ra ha (by rw [hra])
+    obtain ⟨f, hff, hrb⟩ := inv.files k rg hnp hg'
     obtain ⟨v, hv⟩ := Option.isSome_iff_exists.mp hcg.1
     unfold Qdb.loadrec
     rw [hra]
-    simp only [h.fs, hf]
+    simp only [h.fs, ← hf, hff]
     have hlen : ((f.drop rg.pos).take rg.len).length = rg.len := by
       simp only [List.length_take, List.length_drop]
       have h41 : rg.pos + rg.len ≤ f.length := hrb.1
@@ -208,78 +223,87 @@ theorem SubL.keys {la lg : List (Key × Rec)} (h : SubL la lg) : Keys la = Keys 
       simp only [Keys, List.map_cons] at *
       rw [ih ht]
 
-/-- `g` written over `a`'s shell -/
-theorem Lz.g_eq {a g : DB} (h : Lz a g) : { a with index := g.index } = g := shell_eq h.sh g.index
-
-theorem Lz.nodup {a g : DB} (h : Lz a g) (inv : DiskInv g) : (Keys a.index).Nodup := by
-  rw [h.idx.keys]; exact inv.nodup
+theorem shell_eq {a g : DB} (h : shell a = shell g) (idx : List (Key × Rec)) (e : Bool) :
+    { a with index := idx, eager := e } = { g with index := idx, eager := e } := by
+  have := congrArg (fun d : DB => { d with index := idx, eager := e }) h
+  exact this
 
 /-! ### operations that do not touch the files -/
 
-theorem get_lz {a g : DB} (h : Lz a g) (inv : DiskInv g) (k : Key) :
-    Lz (Qdb.get a k).1 (Qdb.get g k).1 ∧ (Qdb.get a k).2 = (Qdb.get g k).2 := by
-  have hfa : a.failed = none := h.failed.trans inv.cached.1
+theorem get_lz {P : List Key} {a g : DB} (h : Lz P a g) (hc : Cached g) (hl : Loads a g) (k : Key) :
+    Lz P (Qdb.get a k).1 (Qdb.get g k).1 ∧ (Qdb.get a k).2 = (Qdb.get g k).2 := by
+  have hfa : a.failed = none := h.failed.trans hc.1
   rcases h.idx.lookup k with ⟨h1, h2⟩ | ⟨ra, rg, h1, h2, hs⟩
   · have ea : Qdb.get a k = (a, none) := by unfold Qdb.get; simp [hfa, h1]
-    have eg : Qdb.get g k = (g, none) := by unfold Qdb.get; simp [inv.cached.1, h2]
-    rw [ea, eg]; exact ⟨h, rfl⟩
-  · have la := h.loadrec inv k ra rg h1 h2 hs
-    have hcg := allCached_lookup inv.cached.2 k rg h2
+    have eg' : Qdb.get g k = (g, none) := by unfold Qdb.get; simp [hc.1, h2]
+    rw [ea, eg']; exact ⟨h, rfl⟩
+  · have la := hl k ra rg h1 h2 hs
+    have hcg := allCached_lookup hc.2 k rg h2
     have lg := loadrec_cached g.fs rg hcg
     have ea : Qdb.get a k = ({ a with index := iset k { rg with flags := applyBrowsingFlags rg.flags YES_CACHE } a.index },
         rg.data) := by
       unfold Qdb.get; simp [hfa, h1, la]
-    have eg : Qdb.get g k = ({ g with index := iset k { rg with flags := applyBrowsingFlags rg.flags YES_CACHE } g.index },
+    have eg' : Qdb.get g k = ({ g with index := iset k { rg with flags := applyBrowsingFlags rg.flags YES_CACHE } g.index },
         rg.data) := by
-      unfold Qdb.get; simp [inv.cached.1, h2, lg]
-    rw [ea, eg]
-    refine ⟨⟨h.sh, h.idx.iset k _ _ (Sub.refl _), ?_⟩, rfl⟩
-    intro j r hl hd
-    have hl' : ilookup j (iset k { rg with flags := applyBrowsingFlags rg.flags YES_CACHE } a.index) = some r := hl
-    rw [ilookup_iset] at hl'
-    split at hl'
-    · cases hl'
-      have := hcg.1
-      simp only at hd
-      rw [hd] at this; cases this
-    · exact h.np j r hl' hd
+      unfold Qdb.get; simp [hc.1, h2, lg]
+    rw [ea, eg']
+    refine ⟨⟨h.sh, h.idx.iset k _ _ (Sub.refl _), ?_, ?_, h.ge⟩, rfl⟩
+    · intro j r hlk hd
+      have hl' : ilookup j (iset k { rg with flags := applyBrowsingFlags rg.flags YES_CACHE } a.index) = some r := hlk
+      rw [ilookup_iset] at hl'
+      split at hl'
+      · cases hl'
+        have := hcg.1
+        simp only at hd
+        rw [hd] at this; cases this
+      · exact h.np j r hl' hd
+    · intro j r hlk hp
+      have hl' : ilookup j (iset k { rg with flags := applyBrowsingFlags rg.flags YES_CACHE } a.index) = some r := hlk
+      rw [ilookup_iset] at hl'
+      split at hl'
+      · rename_i hjk
+        cases hl'
+        subst hjk
+        exact h.pz k ra h1 (by rw [hs.fields.2.1]; exact hp)
+      · exact h.pz j r hl' hp
 
-theorem applyFlags_lz {a g : DB} (h : Lz a g) (inv : DiskInv g) (k : Key) (fl : Nat) :
-    Lz (applyFlags a k fl) (applyFlags g k fl) := by
-  have hfa : a.failed = none := h.failed.trans inv.cached.1
+theorem applyFlags_lz {P : List Key} {a g : DB} (h : Lz P a g) (hc : Cached g) (k : Key) (fl : Nat) :
+    Lz P (applyFlags a k fl) (applyFlags g k fl) := by
+  have hfa : a.failed = none := h.failed.trans hc.1
   rcases h.idx.lookup k with ⟨h1, h2⟩ | ⟨ra, rg, h1, h2, hs⟩
   · have ea : applyFlags a k fl = a := by unfold applyFlags; simp [hfa, h1]
-    have eg : applyFlags g k fl = g := by unfold applyFlags; simp [inv.cached.1, h2]
-    rw [ea, eg]; exact h
+    have eg' : applyFlags g k fl = g := by unfold applyFlags; simp [hc.1, h2]
+    rw [ea, eg']; exact h
   · have ea : applyFlags a k fl = { a with index := iset k { ra with flags := applyBrowsingFlags ra.flags fl } a.index } := by
       unfold applyFlags; simp [hfa, h1]
-    have eg : applyFlags g k fl = { g with index := iset k { rg with flags := applyBrowsingFlags rg.flags fl } g.index } := by
-      unfold applyFlags; simp [inv.cached.1, h2]
-    rw [ea, eg]
-    refine ⟨h.sh, h.idx.iset k _ _ (by rw [hs.fields.2.2.2]; exact hs.withFlags _), ?_⟩
-    intro j r hl hd
-    have hl' : ilookup j (iset k { ra with flags := applyBrowsingFlags ra.flags fl } a.index) = some r := hl
-    rw [ilookup_iset] at hl'
-    split at hl'
-    · rename_i hjk
-      cases hl'
-      subst hjk
-      exact h.np k ra h1 hd
-    · exact h.np j r hl' hd
+    have eg' : applyFlags g k fl = { g with index := iset k { rg with flags := applyBrowsingFlags rg.flags fl } g.index } := by
+      unfold applyFlags; simp [hc.1, h2]
+    rw [ea, eg']
+    refine ⟨h.sh, h.idx.iset k _ _ (by rw [hs.fields.2.2.2]; exact hs.withFlags _), ?_, ?_, h.ge⟩
+    · intro j r hlk hd
+      have hl' : ilookup j (iset k { ra with flags := applyBrowsingFlags ra.flags fl } a.index) = some r := hlk
+      rw [ilookup_iset] at hl'
+      split at hl'
+      · rename_i hjk
+        cases hl'
+        subst hjk
+        exact h.np k ra h1 hd
+      · exact h.np j r hl' hd
+    · intro j r hlk hp
+      have hl' : ilookup j (iset k { ra with flags := applyBrowsingFlags ra.flags fl } a.index) = some r := hlk
+      rw [ilookup_iset] at hl'
+      split at hl'
+      · rename_i hjk
+        cases hl'
+        subst hjk
+        exact h.pz k ra h1 hp
+      · exact h.pz j r hl' hp
 
-theorem noSyncOp_lz {a g : DB} (h : Lz a g) (inv : DiskInv g) : Lz (noSyncOp a) (noSyncOp g) := by
-  have hfa : a.failed = none := h.failed.trans inv.cached.1
-  have hva : a.volatile = false := h.volatile.trans inv.nv
-  have ea : noSyncOp a = { a with noSync := true } := by unfold noSyncOp; simp [hfa, hva]
-  have eg : noSyncOp g = { g with noSync := true } := by unfold noSyncOp; simp [inv.cached.1, inv.nv]
-  rw [ea, eg]
-  exact ⟨congrArg (fun d : DB => { d with noSync := true }) h.sh, h.idx, h.np⟩
-
-/-! ### memput / memdel / addPending -/
+/-! ### memput / memdel -/
 
 def prvLen (db : DB) (k : Key) : Option Nat := (ilookup k db.index).map (·.len)
 
-theorem Lz.prvLen {a g : DB} (h : Lz a g) (k : Key) : prvLen a k = prvLen g k := by
+theorem Lz.prvLen {P : List Key} {a g : DB} (h : Lz P a g) (k : Key) : prvLen a k = prvLen g k := by
   unfold C19.prvLen
   rcases h.idx.lookup k with ⟨h1, h2⟩ | ⟨ra, rg, h1, h2, hs⟩
   · rw [h1, h2]
@@ -287,7 +311,7 @@ theorem Lz.prvLen {a g : DB} (h : Lz a g) (k : Key) : prvLen a k = prvLen g k :=
 
 theorem memput_shell (d d' : DB) (k : Key) (r : Rec) (hs : shell d = shell d') (hl : prvLen d k = prvLen d' k) :
     shell (memput d k r) = shell (memput d' k r) := by
-  have e : { d with index := d'.index } = d' := shell_eq hs d'.index
+  have e : { d with index := d'.index, eager := d'.eager } = d' := shell_eq hs d'.index d'.eager
   rw [← e]
   unfold C19.prvLen at hl
   rw [← e] at hl
@@ -312,7 +336,7 @@ theorem memput_shell (d d' : DB) (k : Key) (r : Rec) (hs : shell d = shell d') (
 
 theorem memdel_shell (d d' : DB) (k : Key) (hs : shell d = shell d') (hl : prvLen d k = prvLen d' k) :
     shell (memdel d k) = shell (memdel d' k) := by
-  have e : { d with index := d'.index } = d' := shell_eq hs d'.index
+  have e : { d with index := d'.index, eager := d'.eager } = d' := shell_eq hs d'.index d'.eager
   rw [← e]
   unfold C19.prvLen at hl
   rw [← e] at hl
@@ -333,89 +357,68 @@ theorem memdel_shell (d d' : DB) (k : Key) (hs : shell d = shell d') (hl : prvLe
       simp only [h2, hl]
       (cases hv : d.volatile <;> simp only [hv, shell, Bool.false_eq_true, ↓reduceIte] <;> rfl)
 
-/-- Put / Del up to and including `PendingRecords[key] = true` -/
-theorem putPending_lz {a g : DB} (h : Lz a g) (k : Key) (r : Rec) (hr : r.data.isSome = true) :
-    Lz (addPending (memput a k r) k) (addPending (memput g k r) k) := by
+/-- memput of a fresh record (data in memory, no place on disk yet): `k` joins the changed keys -/
+theorem memput_lz {P : List Key} {a g : DB} (h : Lz P a g) (k : Key) (r : Rec) (hr : r.data.isSome = true)
+    (hp0 : r.pos = 0) : Lz (pendingAdd P k) (memput a k r) (memput g k r) := by
   have hsh := memput_shell a g k r h.sh (h.prvLen k)
   have hia := (memput_spec a k r).1
   have hig := (memput_spec g k r).1
-  have hpe : (memput a k r).pending = (memput g k r).pending :=
-    (congrArg DB.pending hsh : (shell (memput a k r)).pending = (shell (memput g k r)).pending)
-  rw [addPending_same, addPending_same, ← hpe]
-  refine ⟨congrArg (fun d : DB => { d with pending := pendingAdd (memput a k r).pending k }) hsh, ?_, ?_⟩
-  · show SubL (memput a k r).index (memput g k r).index
-    rw [hia, hig]; exact h.idx.iset k r r (Sub.refl r)
+  refine ⟨hsh, by rw [hia, hig]; exact h.idx.iset k r r (Sub.refl r), ?_, ?_, (memput_eager g k r).trans h.ge⟩
   · intro j rj hl hd
-    have hl' : ilookup j (memput a k r).index = some rj := hl
-    rw [hia, ilookup_iset] at hl'
-    show j ∉ pendingAdd (memput a k r).pending k
+    rw [hia, ilookup_iset] at hl
     rw [mem_pendingAdd]
-    split at hl'
-    · cases hl'; rw [hd] at hr; cases hr
+    split at hl
+    · cases hl; rw [hd] at hr; cases hr
     · rename_i hjk
-      have hpa : (memput a k r).pending = a.pending := by
-        obtain ⟨e, n, m, hmp⟩ := memput_same a k r; rw [hmp]
-      rw [hpa]
       intro hc
       rcases hc with hc | hc
       · exact hjk hc.symm
-      · exact h.np j rj hl' hd hc
+      · exact h.np j rj hl hd hc
+  · intro j rj hl hp
+    rw [hia, ilookup_iset] at hl
+    rw [mem_pendingAdd]
+    split at hl
+    · cases hl; exact absurd hp0 hp
+    · rename_i hjk
+      intro hc
+      rcases hc with hc | hc
+      · exact hjk hc.symm
+      · exact h.pz j rj hl hp hc
 
-theorem delPending_lz {a g : DB} (h : Lz a g) (inv : DiskInv g) (k : Key) :
-    Lz (addPending (memdel a k) k) (addPending (memdel g k) k) := by
+theorem memdel_lz {P : List Key} {a g : DB} (h : Lz P a g) (hnd : (Keys g.index).Nodup) (k : Key) :
+    Lz (pendingAdd P k) (memdel a k) (memdel g k) := by
   have hsh := memdel_shell a g k h.sh (h.prvLen k)
   have hia := (memdel_spec a k).1
   have hig := (memdel_spec g k).1
-  have hpe : (memdel a k).pending = (memdel g k).pending :=
-    (congrArg DB.pending hsh : (shell (memdel a k)).pending = (shell (memdel g k)).pending)
-  rw [addPending_same, addPending_same, ← hpe]
-  refine ⟨congrArg (fun d : DB => { d with pending := pendingAdd (memdel a k).pending k }) hsh, ?_, ?_⟩
-  · show SubL (memdel a k).index (memdel g k).index
-    rw [hia, hig]; exact h.idx.ierase k
+  have hnda : (Keys a.index).Nodup := by rw [h.idx.keys]; exact hnd
+  refine ⟨hsh, by rw [hia, hig]; exact h.idx.ierase k, ?_, ?_, (memdel_eager g k).trans h.ge⟩
   · intro j rj hl hd
-    have hl' : ilookup j (memdel a k).index = some rj := hl
-    rw [hia, ilookup_ierase _ _ _ (h.nodup inv)] at hl'
-    show j ∉ pendingAdd (memdel a k).pending k
+    rw [hia, ilookup_ierase _ _ _ hnda] at hl
     rw [mem_pendingAdd]
-    split at hl'
-    · cases hl'
+    split at hl
+    · cases hl
     · rename_i hjk
-      have hpa : (memdel a k).pending = a.pending := by
-        obtain ⟨e, n, hmd⟩ := memdel_same a k; rw [hmd]
-      rw [hpa]
       intro hc
       rcases hc with hc | hc
       · exact hjk hc.symm
-      · exact h.np j rj hl' hd hc
+      · exact h.np j rj hl hd hc
+  · intro j rj hl hp
+    rw [hia, ilookup_ierase _ _ _ hnda] at hl
+    rw [mem_pendingAdd]
+    split at hl
+    · cases hl
+    · rename_i hjk
+      intro hc
+      rcases hc with hc | hc
+      · exact hjk hc.symm
+      · exact h.pz j rj hl hp hc
 
-/-! ### functions that never look at the index -/
+/-! ### functions that look neither at the index nor at the ghost field -/
 
-def reidx (d : DB) (i : List (Key × Rec)) : DB := { d with index := i }
-
-theorem Lz.g_reidx {a g : DB} (h : Lz a g) : reidx a g.index = g := h.g_eq
-
-/-- `f` neither reads nor writes the index -/
 def IdxFree (f : DB → DB) : Prop := ∀ d i, f (reidx d i) = reidx (f d) i
 
-theorem IdxFree.index {f : DB → DB} (hf : IdxFree f) (d : DB) : (f d).index = d.index := by
-  have := congrArg DB.index (hf d d.index)
-  exact this
-
-theorem IdxFree.lz {f : DB → DB} (hf : IdxFree f) {a g : DB} (h : Lz a g) (hp : (f a).pending = a.pending ∨ (f a).pending = []) :
-    Lz (f a) (f g) := by
-  have e : f g = reidx (f a) g.index := by rw [← h.g_reidx]; exact hf a g.index
-  rw [e]
-  refine ⟨rfl, ?_, ?_⟩
-  · show SubL (f a).index g.index
-    rw [hf.index]; exact h.idx
-  · intro k r hl hd
-    have hl' : ilookup k (f a).index = some r := hl
-    rw [hf.index] at hl'
-    rcases hp with hp | hp
-    · rw [hp]; exact h.np k r hl' hd
-    · rw [hp]; exact List.not_mem_nil
-
-theorem idxFree_emit (t : String) (e : Effect) : IdxFree (fun d => emit d t e) := fun _ _ => rfl
+theorem IdxFree.index {f : DB → DB} (hf : IdxFree f) (d : DB) : (f (reidx d d.index)).index = d.index := by
+  rw [hf d d.index]; rfl
 
 theorem idxFree_checkDat : IdxFree checkDat := by
   intro d i
@@ -429,18 +432,37 @@ theorem idxFree_checkLog : IdxFree checkLog := by
   dsimp only
   split <;> rfl
 
+theorem checkDat_index (d : DB) : (checkDat d).index = d.index := by
+  unfold checkDat; split <;> rfl
+
+theorem checkLog_index (d : DB) : (checkLog d).index = d.index := by
+  unfold checkLog; split <;> rfl
+
 theorem fail_reidx (d : DB) (w : String) (i : List (Key × Rec)) : fail (reidx d i) w = reidx (fail d w) i := by
   unfold fail reidx
   dsimp only
   split <;> rfl
 
-/-! ### sync() -/
+theorem idxFree_logWritten (b : Bytes) : IdxFree (fun d => logWritten d b) := by
+  intro d i
+  unfold logWritten
+  show { emit (checkLog (reidx d i)) "qdb.sync:log-written" (.appendLog b) with pending := [] } = _
+  rw [idxFree_checkLog d i]
+  rfl
+
+theorem logWritten_index (d : DB) (b : Bytes) : (logWritten d b).index = d.index := by
+  unfold logWritten
+  exact checkLog_index d
+
+/-! ### sync(): the real store may drop what it has just written -/
 
 theorem syncKey_lz (d : DB) (ig : List (Key × Rec)) (b : Bytes) (k : Key) (hs : SubL d.index ig)
-    (hl : ilookup k d.index = ilookup k ig) :
+    (hl : ilookup k d.index = ilookup k ig)
+    (hgf : ∀ r, ilookup k ig = some r → hasFlag r.flags (ncOf true) = false) :
     ∃ i', (syncKey (reidx d ig, b) k).1 = reidx (syncKey (d, b) k).1 i' ∧
       (syncKey (reidx d ig, b) k).2 = (syncKey (d, b) k).2 ∧ SubL (syncKey (d, b) k).1.index i' ∧
-      (∀ j, ilookup j d.index = ilookup j ig → ilookup j (syncKey (d, b) k).1.index = ilookup j i') := by
+      (∀ j, j ≠ k → ilookup j d.index = ilookup j ig → ilookup j (syncKey (d, b) k).1.index = ilookup j i') ∧
+      (∀ j, j ≠ k → ilookup j i' = ilookup j ig) := by
   have hfG : (reidx d ig).failed = d.failed := rfl
   have hiG : (reidx d ig).index = ig := rfl
   cases hf : d.failed with
@@ -448,7 +470,7 @@ theorem syncKey_lz (d : DB) (ig : List (Key × Rec)) (b : Bytes) (k : Key) (hs :
     have eA : syncKey (d, b) k = (d, b) := by unfold syncKey; simp only [hf]
     have eG : syncKey (reidx d ig, b) k = (reidx d ig, b) := by unfold syncKey; simp only [hfG, hf]
     rw [eA, eG]
-    exact ⟨ig, rfl, rfl, hs, fun j hj => hj⟩
+    exact ⟨ig, rfl, rfl, hs, fun j _ hj => hj, fun _ _ => rfl⟩
   | none =>
     cases hk : ilookup k d.index with
     | none =>
@@ -457,7 +479,7 @@ theorem syncKey_lz (d : DB) (ig : List (Key × Rec)) (b : Bytes) (k : Key) (hs :
       have eG : syncKey (reidx d ig, b) k = (reidx d ig, b ++ encDel k) := by
         unfold syncKey; simp only [hfG, hiG, hf, hkG]
       rw [eA, eG]
-      exact ⟨ig, rfl, rfl, hs, fun j hj => hj⟩
+      exact ⟨ig, rfl, rfl, hs, fun j _ hj => hj, fun _ _ => rfl⟩
     | some rc =>
       have hkG : ilookup k ig = some rc := by rw [← hl]; exact hk
       cases hd : rc.data with
@@ -466,10 +488,10 @@ theorem syncKey_lz (d : DB) (ig : List (Key × Rec)) (b : Bytes) (k : Key) (hs :
         have eG : syncKey (reidx d ig, b) k = (fail (reidx d ig) "panic", b) := by
           unfold syncKey; simp only [hfG, hiG, hf, hkG, hd]
         rw [eA, eG]
-        refine ⟨ig, fail_reidx d "panic" ig, rfl, ?_, ?_⟩
+        refine ⟨ig, fail_reidx d "panic" ig, rfl, ?_, ?_, fun _ _ => rfl⟩
         · show SubL (fail d "panic").index ig
           unfold fail; rw [hf]; exact hs
-        · intro j hj
+        · intro j _ hj
           show ilookup j (fail d "panic").index = _
           unfold fail; rw [hf]; exact hj
       | some val =>
@@ -477,16 +499,25 @@ theorem syncKey_lz (d : DB) (ig : List (Key × Rec)) (b : Bytes) (k : Key) (hs :
         have eG : syncKey (reidx d ig, b) k = syncRec (reidx d ig) b k rc val := by
           unfold syncKey; simp only [hfG, hiG, hf, hkG, hd]
         rw [eA, eG]
+        have hgk := hgf rc hkG
         unfold syncRec
-        refine ⟨iset k (if hasFlag rc.flags NO_CACHE then { rc with pos := u32 d.lastPos, seq := d.dataSeq, data := none }
-            else { rc with pos := u32 d.lastPos, seq := d.dataSeq }) ig, rfl, rfl, ?_, ?_⟩
-        · exact hs.iset k _ _ (Sub.refl _)
-        · intro j hj
+        have hee : (emit (reidx d ig) "qdb.sync:data-written" (.writeDat (reidx d ig).dataSeq (reidx d ig).lastPos val)).eager = true := rfl
+        simp only [hee, hgk, Bool.false_eq_true, ↓reduceIte]
+        refine ⟨iset k { rc with pos := u32 d.lastPos, seq := d.dataSeq } ig, rfl, rfl, ?_, ?_, ?_⟩
+        · show SubL (Qdb.iset k _ d.index) (Qdb.iset k _ ig)
+          apply hs.iset
+          split
+          · exact Or.inr rfl
+          · exact Or.inl rfl
+        · intro j hj hjl
           show ilookup j (Qdb.iset k _ d.index) = ilookup j (Qdb.iset k _ ig)
-          rw [ilookup_iset, ilookup_iset, hj]
+          rw [ilookup_iset, ilookup_iset, if_neg (Ne.symm hj), if_neg (Ne.symm hj), hjl]
+        · intro j hj
+          rw [ilookup_iset, if_neg (Ne.symm hj)]
 
-theorem syncFold_lz (ks : List Key) (d : DB) (ig : List (Key × Rec)) (b : Bytes) (hs : SubL d.index ig)
-    (hks : ∀ k ∈ ks, ilookup k d.index = ilookup k ig) :
+theorem syncFold_lz (ks : List Key) (hnd : ks.Nodup) (d : DB) (ig : List (Key × Rec)) (b : Bytes) (hs : SubL d.index ig)
+    (hks : ∀ k ∈ ks, ilookup k d.index = ilookup k ig)
+    (hgf : ∀ k ∈ ks, ∀ r, ilookup k ig = some r → hasFlag r.flags (ncOf true) = false) :
     ∃ i', (ks.foldl syncKey (reidx d ig, b)).1 = reidx (ks.foldl syncKey (d, b)).1 i' ∧
       (ks.foldl syncKey (reidx d ig, b)).2 = (ks.foldl syncKey (d, b)).2 ∧
       SubL (ks.foldl syncKey (d, b)).1.index i' := by
@@ -494,17 +525,17 @@ theorem syncFold_lz (ks : List Key) (d : DB) (ig : List (Key × Rec)) (b : Bytes
   | nil => exact ⟨ig, rfl, rfl, hs⟩
   | cons k t ih =>
     simp only [List.foldl_cons]
-    obtain ⟨i1, e1, e2, s1, l1⟩ := syncKey_lz d ig b k hs (hks k List.mem_cons_self)
+    obtain ⟨hkt, hndt⟩ := List.nodup_cons.mp hnd
+    obtain ⟨i1, e1, e2, s1, l1, l2⟩ := syncKey_lz d ig b k hs (hks k List.mem_cons_self) (hgf k List.mem_cons_self)
     have hst : syncKey (reidx d ig, b) k = (reidx (syncKey (d, b) k).1 i1, (syncKey (d, b) k).2) := by
       rw [← e1, ← e2]
     rw [hst]
-    exact ih (syncKey (d, b) k).1 i1 (syncKey (d, b) k).2 s1
-      (fun k' hk' => l1 k' (hks k' (List.mem_cons_of_mem _ hk')))
+    have hne : ∀ k' ∈ t, k' ≠ k := fun k' hk' he => hkt (he ▸ hk')
+    exact ih hndt (syncKey (d, b) k).1 i1 (syncKey (d, b) k).2 s1
+      (fun k' hk' => l1 k' (hne k' hk') (hks k' (List.mem_cons_of_mem _ hk')))
+      (fun k' hk' r hr => hgf k' (List.mem_cons_of_mem _ hk') r (by rw [← l2 k' (hne k' hk')]; exact hr))
 
-/-! ### defrag(): every record is loaded, so both stores end up equal -/
-
-theorem defragSink_reidx (S : Nat) (d : DB) (b : Bytes) (i : List (Key × Rec)) :
-    defragSink S (reidx d i) b = reidx (defragSink S d b) i := rfl
+/-! ### defrag(): every record is loaded and moved; the real store may drop what it has just moved -/
 
 theorem bufWrite_reidx (sink : DB → Bytes → DB) (hsink : ∀ d b i, sink (reidx d i) b = reidx (sink d b) i)
     (d : DB) (w : BufW) (p : Bytes) (i : List (Key × Rec)) :
@@ -527,35 +558,90 @@ theorem bufFlush_reidx (sink : DB → Bytes → DB) (hsink : ∀ d b i, sink (re
   · rfl
   · exact hsink _ _ _
 
-theorem defragRec_reidx (S : Nat) (d : DB) (w : BufW) (acc : List (Key × Rec)) (kr : Key × Rec)
-    (i : List (Key × Rec)) :
-    defragRec (defragSink S) (reidx d i, w, acc) kr =
-      (reidx (defragRec (defragSink S) (d, w, acc) kr).1 i, (defragRec (defragSink S) (d, w, acc) kr).2.1,
-       (defragRec (defragSink S) (d, w, acc) kr).2.2) := by
-  unfold defragRec
-  dsimp only
-  have hf : (reidx d i).failed = d.failed := rfl
-  have hfs : (reidx d i).fs = d.fs := rfl
-  rw [hf, hfs]
-  cases d.failed with
-  | some x => rfl
-  | none =>
-    simp only []
-    cases Qdb.loadrec d.fs kr.2 with
-    | none =>
-      simp only []
-      rw [fail_reidx]
-    | some r =>
-      simp only []
-      rw [bufWrite_reidx (defragSink S) (defragSink_reidx S)]
-      rfl
+theorem bufWriteAll_reidx (sink : DB → Bytes → DB) (hsink : ∀ d b i, sink (reidx d i) b = reidx (sink d b) i)
+    (ps : List Bytes) (d : DB) (w : BufW) (i : List (Key × Rec)) :
+    bufWriteAll sink (reidx d i) w ps = (reidx (bufWriteAll sink d w ps).1 i, (bufWriteAll sink d w ps).2) := by
+  unfold bufWriteAll
+  induction ps generalizing d w with
+  | nil => rfl
+  | cons p t ih =>
+    simp only [List.foldl_cons]
+    rw [bufWrite_reidx sink hsink]
+    exact ih _ _
 
-theorem defragRec_load (S : Nat) (d : DB) (w : BufW) (acc : List (Key × Rec)) (k : Key) (ra rg : Rec)
-    (h : Qdb.loadrec d.fs ra = Qdb.loadrec d.fs rg) :
-    defragRec (defragSink S) (d, w, acc) (k, ra) = defragRec (defragSink S) (d, w, acc) (k, rg) := by
-  unfold defragRec
+theorem defragSink_reidx (S : Nat) (d : DB) (b : Bytes) (i : List (Key × Rec)) :
+    defragSink S (reidx d i) b = reidx (defragSink S d b) i := rfl
+
+theorem idxSink_reidx (j : Nat) (d : DB) (b : Bytes) (i : List (Key × Rec)) :
+    idxSink j (reidx d i) b = reidx (idxSink j d b) i := rfl
+
+theorem idxWrites_sub (la lg : List (Key × Rec)) (h : SubL la lg) (v : Nat) : idxWrites la v = idxWrites lg v := by
+  unfold idxWrites
+  congr 2
+  induction la generalizing lg with
+  | nil =>
+    cases lg with
+    | nil => rfl
+    | cons y t => exact absurd h (by simp [SubL])
+  | cons x ta ih =>
+    cases lg with
+    | nil => exact absurd h (by simp [SubL])
+    | cons y tg =>
+      obtain ⟨ka, ra⟩ := x
+      obtain ⟨kg, rg⟩ := y
+      obtain ⟨rfl, hs, ht⟩ := h
+      obtain ⟨f1, f2, f3, f4⟩ := hs.fields
+      simp only [List.flatMap_cons, f1, f2, f3, f4, ih tg ht]
+
+/-- writedatfile writes the same snapshot for both stores -/
+theorem writedatfile_sub (x : DB) (ig : List (Key × Rec)) (h : SubL x.index ig) :
+    writedatfile (reidx x ig) = reidx (writedatfile x) ig := by
+  unfold writedatfile
   dsimp only
-  rw [h]
+  have hw : idxWrites (reidx x ig).index (u32 ((reidx x ig).verSeq + 1)) = idxWrites x.index (u32 (x.verSeq + 1)) :=
+    (idxWrites_sub _ _ h _).symm
+  have e0 : (emit { reidx x ig with datIdx := 1 - (reidx x ig).datIdx, verSeq := u32 ((reidx x ig).verSeq + 1) }
+      "qdb.writedatfile:created" (.createIdx (1 - (reidx x ig).datIdx))) =
+      reidx (emit { x with datIdx := 1 - x.datIdx, verSeq := u32 (x.verSeq + 1) }
+      "qdb.writedatfile:created" (.createIdx (1 - x.datIdx))) ig := rfl
+  show emit (emit { bufFlush (idxSink (1 - (reidx x ig).datIdx))
+      (bufWriteAll (idxSink (1 - (reidx x ig).datIdx)) _ {} (idxWrites (reidx x ig).index (u32 ((reidx x ig).verSeq + 1)))).1
+      (bufWriteAll (idxSink (1 - (reidx x ig).datIdx)) _ {} (idxWrites (reidx x ig).index (u32 ((reidx x ig).verSeq + 1)))).2
+      with logOpen := false } _ _) _ _ = _
+  rw [hw, e0, bufWriteAll_reidx _ (idxSink_reidx _), bufFlush_reidx _ (idxSink_reidx _)]
+  rfl
+
+theorem cleanupold_reidx (x : DB) (used : List Nat) (i : List (Key × Rec)) :
+    cleanupold (reidx x i) used = reidx (cleanupold x used) i := by
+  unfold cleanupold
+  have hd : (reidx x i).fs = x.fs := rfl
+  rw [hd]
+  generalize (sortNat (x.fs.dats.map (·.1))) = l
+  induction l generalizing x with
+  | nil => rfl
+  | cons s t ih =>
+    simp only [List.foldl_cons]
+    have hds : (reidx x i).dataSeq = x.dataSeq := rfl
+    by_cases hc : s ≠ x.dataSeq ∧ ¬ used.contains s = true
+    · rw [if_pos (by rw [hds]; exact hc), if_pos hc]
+      exact ih (emit x "qdb.cleanupold:removed" (.removeDat s)) rfl
+    · rw [if_neg (by rw [hds]; exact hc), if_neg hc]
+      exact ih x rfl
+
+theorem defragFinish_sub (S : Nat) (d : DB) (w : BufW) (accA accG ig : List (Key × Rec)) (h : SubL accA accG) :
+    defragFinish S (reidx d ig) w accG = reidx (defragFinish S d w accA) accG := by
+  unfold defragFinish
+  have e1 : ({ reidx d ig with index := accG } : DB) = reidx { d with index := accA } accG := rfl
+  have hemp : accG.isEmpty = accA.isEmpty := by
+    have := h.length
+    cases accA <;> cases accG <;> simp_all
+  dsimp only
+  rw [e1, bufFlush_reidx _ (defragSink_reidx S), writedatfile_sub _ _ (by
+    show SubL (bufFlush (defragSink S) { d with index := accA } w).index accG
+    have : (bufFlush (defragSink S) { d with index := accA } w).index = accA :=
+      (frame_bufFlush _ (defragSink_framed S) { d with index := accA } w).index
+    rw [this]; exact h), cleanupold_reidx, hemp]
+  rfl
 
 /-- the data files other than `S` -/
 def offS (S : Nat) (F : FS) : Nat → Option Bytes := fun t => if t = S then none else dlookup t F.dats
@@ -574,36 +660,55 @@ theorem defragSink_offS (S : Nat) (d : DB) (b : Bytes) : offS S (defragSink S d 
   simp only [Prod.mk.injEq] at this
   exact this.2.2.2.1
 
-theorem defragRec_offS (S : Nat) (d : DB) (w : BufW) (acc : List (Key × Rec)) (kr : Key × Rec) :
-    offS S (defragRec (defragSink S) (d, w, acc) kr).1.fs = offS S d.fs := by
-  unfold defragRec
-  dsimp only
-  cases d.failed with
-  | some x => rfl
-  | none =>
-    simp only []
-    cases Qdb.loadrec d.fs kr.2 with
-    | none =>
-      simp only []
-      unfold fail
-      split <;> rfl
-    | some r =>
-      simp only []
-      exact (bufWrite_gen (defragSink S) (datFile S) (fun x => offS S x.fs) (defragSink_file S)
-        (defragSink_offS S) d w (r.data.getD [])).2
+/-- one record of defrag's browse, on both sides -/
+theorem defragRec_lz (S : Nat) (d : DB) (hf : d.failed = none) (w : BufW) (accA accG ig : List (Key × Rec)) (k : Key)
+    (ra rg : Rec) (hla : Qdb.loadrec d.fs ra = some rg) (hlg : Qdb.loadrec d.fs rg = some rg)
+    (hgf : hasFlag rg.flags (ncOf true) = false) :
+    ∃ d' w' rA rG, Sub rA rG ∧ d'.failed = none ∧ offS S d'.fs = offS S d.fs ∧
+      defragRec (defragSink S) (d, w, accA) (k, ra) = (d', w', accA ++ [(k, rA)]) ∧
+      defragRec (defragSink S) (reidx d ig, w, accG) (k, rg) = (reidx d' ig, w', accG ++ [(k, rG)]) := by
+  have hfr := frame_bufWrite (defragSink S) (defragSink_framed S) d w (rg.data.getD [])
+  have hoff : offS S (bufWrite (defragSink S) d w (rg.data.getD [])).1.fs = offS S d.fs :=
+    (bufWrite_gen (defragSink S) (datFile S) (fun x => offS S x.fs) (defragSink_file S)
+      (defragSink_offS S) d w (rg.data.getD [])).2
+  refine ⟨{ (bufWrite (defragSink S) d w (rg.data.getD [])).1 with
+      lastPos := (bufWrite (defragSink S) d w (rg.data.getD [])).1.lastPos + (rg.data.getD []).length },
+    (bufWrite (defragSink S) d w (rg.data.getD [])).2,
+    freerec (bufWrite (defragSink S) d w (rg.data.getD [])).1.eager { rg with pos := u32 d.lastPos, seq := (bufWrite (defragSink S) d w (rg.data.getD [])).1.dataSeq },
+    { rg with pos := u32 d.lastPos, seq := (bufWrite (defragSink S) d w (rg.data.getD [])).1.dataSeq }, ?_, ?_, hoff, ?_, ?_⟩
+  · unfold freerec
+    split
+    · exact Or.inr rfl
+    · exact Or.inl rfl
+  · exact hfr.failed.trans hf
+  · unfold defragRec
+    simp only [hf, hla]
+  · unfold defragRec
+    have hfG : (reidx d ig).failed = none := hf
+    have hfs : (reidx d ig).fs = d.fs := rfl
+    simp only [hfG, hfs, hlg]
+    rw [bufWrite_reidx _ (defragSink_reidx S)]
+    have hlp : (reidx d ig).lastPos = d.lastPos := rfl
+    simp only [hlp]
+    rw [show ({ reidx (bufWrite (defragSink S) d w (rg.data.getD [])).1 ig with
+        lastPos := (reidx (bufWrite (defragSink S) d w (rg.data.getD [])).1 ig).lastPos + (rg.data.getD []).length } : DB).eager
+        = true from rfl]
+    rw [freerec_cached true _ (by exact hgf)]
+    rfl
 
 theorem defragFold_lz (S : Nat) (F0 : FS) (la lg : List (Key × Rec)) (hs : SubL la lg)
     (hc : ∀ k ra rg, (k, ra) ∈ la → (k, rg) ∈ lg → Sub ra rg → ∀ F, offS S F = offS S F0 →
-      Qdb.loadrec F ra = Qdb.loadrec F rg)
-    (d : DB) (w : BufW) (acc : List (Key × Rec)) (i : List (Key × Rec)) (hd : offS S d.fs = offS S F0) :
-    lg.foldl (defragRec (defragSink S)) (reidx d i, w, acc) =
-      (reidx (la.foldl (defragRec (defragSink S)) (d, w, acc)).1 i,
-       (la.foldl (defragRec (defragSink S)) (d, w, acc)).2.1,
-       (la.foldl (defragRec (defragSink S)) (d, w, acc)).2.2) := by
-  induction la generalizing lg d w acc with
+      Qdb.loadrec F ra = some rg ∧ Qdb.loadrec F rg = some rg)
+    (hgf : ∀ kr ∈ lg, hasFlag kr.2.flags (ncOf true) = false)
+    (d : DB) (hf : d.failed = none) (w : BufW) (accA accG ig : List (Key × Rec)) (hacc : SubL accA accG)
+    (hd : offS S d.fs = offS S F0) :
+    ∃ d' w' rA rG, SubL rA rG ∧ d'.failed = none ∧
+      la.foldl (defragRec (defragSink S)) (d, w, accA) = (d', w', rA) ∧
+      lg.foldl (defragRec (defragSink S)) (reidx d ig, w, accG) = (reidx d' ig, w', rG) := by
+  induction la generalizing lg d w accA accG with
   | nil =>
     cases lg with
-    | nil => rfl
+    | nil => exact ⟨d, w, accA, accG, hacc, hf, rfl, rfl⟩
     | cons y t => exact absurd hs (by simp [SubL])
   | cons x ta ih =>
     cases lg with
@@ -612,12 +717,12 @@ theorem defragFold_lz (S : Nat) (F0 : FS) (la lg : List (Key × Rec)) (hs : SubL
       obtain ⟨ka, ra⟩ := x
       obtain ⟨kg, rg⟩ := y
       obtain ⟨rfl, hsub, ht⟩ := hs
-      simp only [List.foldl_cons]
-      rw [defragRec_reidx]
-      have hload := hc ka ra rg List.mem_cons_self List.mem_cons_self hsub d.fs hd
-      rw [← defragRec_load S d w acc ka ra rg hload]
+      obtain ⟨l1, l2⟩ := hc ka ra rg List.mem_cons_self List.mem_cons_self hsub d.fs hd
+      obtain ⟨d1, w1, rA, rG, hsr, hf1, ho1, ea, eg'⟩ :=
+        defragRec_lz S d hf w accA accG ig ka ra rg l1 l2 (hgf (ka, rg) List.mem_cons_self)
+      simp only [List.foldl_cons, ea, eg']
       exact ih tg ht (fun k r1 r2 h1 h2 h3 => hc k r1 r2 (List.mem_cons_of_mem _ h1) (List.mem_cons_of_mem _ h2) h3)
-        _ _ _ ((defragRec_offS S d w acc (ka, ra)).trans hd)
+        (fun kr hkr => hgf kr (List.mem_cons_of_mem _ hkr)) d1 hf1 w1 _ _ (hacc.snoc ka rA rG hsr) (ho1.trans hd)
 
 theorem idxFree_defragStart : IdxFree defragStart := by
   intro d i
@@ -634,90 +739,83 @@ theorem defragStart_offS (d : DB) : offS (u32 (d.dataSeq + 1)) (defragStart d).f
   · simp only [ht, ↓reduceIte, dlookup_dset_same]
     rw [dlookup_dset_other _ _ _ _ ht, dlookup_dset_other _ _ _ _ ht]
 
-/-- defrag() loads every record: the two stores end up EQUAL -/
-theorem defrag_lz {a g : DB} (h : Lz a g) (h3 : Inv3 g) (hseq : g.dataSeq + 1 < 2^32) : defrag a = defrag g := by
-  have inv := h3.inv
-  have hds : a.dataSeq = g.dataSeq := (congrArg DB.dataSeq h.sh : (shell a).dataSeq = (shell g).dataSeq)
+/-- defrag() on both sides: same file operations; afterwards nothing is pending and what the real store dropped
+    again is on disk. `hseqs`: no record of the real store lives in the data file defrag is about to create. -/
+theorem defrag_lz {P : List Key} {a g : DB} (h : Lz P a g) (hc : Cached g) (hnd : (Keys g.index).Nodup)
+    (hl : Loads a g) (hseqs : ∀ k r, ilookup k a.index = some r → r.data = none → r.seq ≠ u32 (a.dataSeq + 1)) :
+    Lz [] (defrag a) (defrag g) := by
   have hS : (defragStart a).dataSeq = u32 (a.dataSeq + 1) := (defragStart_disk a).2.2.1
   have hai : (defragStart a).index = a.index := (defragStart_disk a).2.2.2.1
-  have hnd : (Keys a.index).Nodup := h.nodup inv
-  -- the fold on g's side in terms of the fold on a's side
-  have hc : ∀ k ra rg, (k, ra) ∈ a.index → (k, rg) ∈ g.index → Sub ra rg → ∀ F,
+  have haf : (defragStart a).failed = none := (defragStart_disk a).2.2.2.2.1.trans (h.failed.trans hc.1)
+  have hnda : (Keys a.index).Nodup := by rw [h.idx.keys]; exact hnd
+  have hcc : ∀ k ra rg, (k, ra) ∈ a.index → (k, rg) ∈ g.index → Sub ra rg → ∀ F,
       offS (u32 (a.dataSeq + 1)) F = offS (u32 (a.dataSeq + 1)) (defragStart a).fs →
-      Qdb.loadrec F ra = Qdb.loadrec F rg := by
+      Qdb.loadrec F ra = some rg ∧ Qdb.loadrec F rg = some rg := by
     intro k ra rg hma hmg hsub F hF
-    have hla := ilookup_of_mem_nodup a.index hnd k ra hma
-    have hlg := ilookup_of_mem_nodup g.index inv.nodup k rg hmg
-    have hcg := allCached_lookup inv.cached.2 k rg hlg
+    have hla := ilookup_of_mem_nodup a.index hnda k ra hma
+    have hlg := ilookup_of_mem_nodup g.index hnd k rg hmg
+    have hcg := allCached_lookup hc.2 k rg hlg
+    refine ⟨?_, loadrec_cached F rg hcg⟩
     rcases hsub with rfl | hra
-    · rfl
-    · rw [loadrec_cached F rg hcg]
-      have hnp : k ∉ g.pending := by rw [← h.pending]; exact h.np k ra hla (by rw [hra])
-      have hseqne : ra.seq ≠ u32 (a.dataSeq + 1) := by
-        have hcl := inv.clean k hnp
-        rw [hlg] at hcl
-        cases hdi : ilookup k (diskIndex g.fs) with
-        | none => rw [hdi] at hcl; cases hcl
-        | some rd =>
-          rw [hdi] at hcl
-          simp only [Option.map_some, Option.some.injEq, core, Prod.mk.injEq] at hcl
-          have := h3.i2.seqs (k, rd) (ilookup_key_pair k rd _ hdi)
-          have hu : u32 (a.dataSeq + 1) = a.dataSeq + 1 := Nat.mod_eq_of_lt (by rw [hds]; exact hseq)
-          rw [hu, hra, hds]
-          show rg.seq ≠ _
-          have h1 : rd.seq = rg.seq := hcl.1
-          have h2 : rd.seq ≤ g.dataSeq := this
-          omega
-      rw [loadrec_offS _ F a.fs ra hseqne (hF.trans (defragStart_offS a))]
-      exact h.loadrec inv k ra rg hla hlg (Or.inr hra)
-  have hfold := defragFold_lz (u32 (a.dataSeq + 1)) (defragStart a).fs a.index g.index h.idx hc
-    (defragStart a) {} [] g.index rfl
-  generalize hX : a.index.foldl (defragRec (defragSink (u32 (a.dataSeq + 1)))) (defragStart a, ({} : BufW), []) = X
-    at hfold
-  have hg : defrag (reidx a g.index) = (match X.1.failed with
-      | some _ => reidx X.1 g.index
-      | none => defragFinish (u32 (a.dataSeq + 1)) X.1 X.2.1 X.2.2) := by
+    · exact loadrec_cached F ra hcg
+    · have hne := hseqs k ra hla (by rw [hra])
+      rw [loadrec_offS _ F a.fs ra hne (hF.trans (defragStart_offS a))]
+      exact hl k ra rg hla hlg (Or.inr hra)
+  have hgf : ∀ kr ∈ g.index, hasFlag kr.2.flags (ncOf true) = false := by
+    intro kr hkr
+    have := (hc.2 kr hkr).2
+    rw [h.ge] at this
+    exact this
+  obtain ⟨d', w', rA, rG, hsr, hf', ea, eg'⟩ := defragFold_lz (u32 (a.dataSeq + 1)) (defragStart a).fs a.index g.index
+    h.idx hcc hgf (defragStart a) haf {} [] [] g.index trivial rfl
+  have hda : defrag a = defragFinish (u32 (a.dataSeq + 1)) d' w' rA := by
+    unfold defrag
+    dsimp only
+    rw [hS, hai, ea]
+    simp only [hf']
+  have hdg : defrag g = reidx (defragFinish (u32 (a.dataSeq + 1)) d' w' rA) rG := by
+    rw [← h.g_reidx]
     unfold defrag
     dsimp only
     rw [idxFree_defragStart a g.index]
     have e1 : (reidx (defragStart a) g.index).dataSeq = u32 (a.dataSeq + 1) := hS
     have e2 : (reidx (defragStart a) g.index).index = g.index := rfl
-    rw [e1, e2, hfold]
-    dsimp only
-    have hff : (reidx X.1 g.index).failed = X.1.failed := rfl
-    rw [hff]
-    cases X.1.failed with
-    | none => rfl
-    | some w => rfl
-  have ha : defrag a = (match X.1.failed with
-      | some _ => X.1
-      | none => defragFinish (u32 (a.dataSeq + 1)) X.1 X.2.1 X.2.2) := by
-    unfold defrag
-    dsimp only
-    rw [hS, hai, hX]
-    rfl
-  have hgf : (defrag g).failed = none := (defrag_cached g inv.cached).cached.1
-  rw [← h.g_reidx, hg] at hgf
-  rw [← h.g_reidx, ha, hg]
-  cases hx : X.1.failed with
-  | none => rfl
-  | some w =>
-    rw [hx] at hgf
-    have : (reidx X.1 g.index).failed = some w := hx
-    simp only [] at hgf
-    rw [this] at hgf
-    cases hgf
+    rw [e1, e2, eg']
+    have hfg : (reidx d' g.index).failed = none := hf'
+    simp only [hfg]
+    exact defragFinish_sub _ d' w' rA rG g.index hsr
+  rw [hda, hdg]
+  refine ⟨rfl, ?_, fun _ _ _ _ => List.not_mem_nil, fun _ _ _ _ => List.not_mem_nil, rfl⟩
+  show SubL (defragFinish (u32 (a.dataSeq + 1)) d' w' rA).index rG
+  rw [(defragFinish_spec _ d' w' rA).1]
+  exact hsr
 
-theorem idxFree_logWritten (b : Bytes) : IdxFree (fun d => logWritten d b) := by
-  intro d i
-  unfold logWritten
-  show { emit (checkLog (reidx d i)) "qdb.sync:log-written" (.appendLog b) with pending := [] } = _
-  rw [idxFree_checkLog d i]
-  rfl
+/-- a record that is not in memory lives in a data file older than the one defrag creates -/
+theorem Lz.lazy_seq {P : List Key} {a g : DB} (h : Lz P a g) (G : DB) (hi : G.index = g.index) (hf : G.fs = g.fs)
+    (hp : G.pending = P) (hds : G.dataSeq = g.dataSeq) (h3 : Inv3 G) (hseq : G.dataSeq + 1 < 2^32) :
+    ∀ k r, ilookup k a.index = some r → r.data = none → r.seq ≠ u32 (a.dataSeq + 1) := by
+  intro k ra hla hd
+  rcases h.idx.lookup k with ⟨h1, _⟩ | ⟨ra', rg, h1, h2, hs⟩
+  · rw [h1] at hla; cases hla
+  · rw [h1] at hla; cases hla
+    have hnp : k ∉ G.pending := by rw [hp]; exact h.np k ra h1 hd
+    have hcl := h3.inv.clean k hnp
+    rw [hi, h2] at hcl
+    cases hdi : ilookup k (diskIndex G.fs) with
+    | none => rw [hdi] at hcl; cases hcl
+    | some rd =>
+      rw [hdi] at hcl
+      simp only [Option.map_some, Option.some.injEq, core, Prod.mk.injEq] at hcl
+      have hle := h3.i2.seqs (k, rd) (ilookup_key_pair k rd _ hdi)
+      have hu : u32 (a.dataSeq + 1) = a.dataSeq + 1 := Nat.mod_eq_of_lt (by rw [h.dataSeq, ← hds]; exact hseq)
+      rw [hu, hs.fields.1, h.dataSeq, ← hds]
+      have h1' : rd.seq = rg.seq := hcl.1
+      have h2' : rd.seq ≤ G.dataSeq := hle
+      omega
 
 /-- sync() acts on both stores in lock step -/
-theorem sync_lz {a g : DB} (h : Lz a g) (h3 : Inv3 g) (hs : SizeOK g) (hseq : g.dataSeq + 1 < 2^32) :
-    Lz (sync a) (sync g) := by
+theorem sync_lz {a g : DB} (h : Lz a.pending a g) (h3 : Inv3 g) (hs : SizeOK g) (hseq : g.dataSeq + 1 < 2^32) :
+    Lz (sync a).pending (sync a) (sync g) := by
   have inv := h3.inv
   have hva : a.volatile = false := h.volatile.trans inv.nv
   cases hp : g.pending.isEmpty with
@@ -726,32 +824,34 @@ theorem sync_lz {a g : DB} (h : Lz a g) (h3 : Inv3 g) (hs : SizeOK g) (hseq : g.
     have e2 : sync a = a := by unfold sync; simp [hva, h.pending, hp]
     rw [e1, e2]; exact h
   | false =>
-    obtain ⟨L, hL, h3L, _, _, _, _, hLds, hLdef⟩ := sync_logWritten3 g h3 hp hs
-    -- the loop on both sides
+    obtain ⟨L, hL, h3L, _, pL, _, _, hLds, hLdef, _⟩ := sync_logWritten3 g h3 hp hs
     have hcd : checkDat g = reidx (checkDat a) g.index := by
       rw [← h.g_reidx]; exact idxFree_checkDat a g.index
     have hks : ∀ k ∈ a.pending, ilookup k (checkDat a).index = ilookup k g.index := by
       intro k hk
-      rw [idxFree_checkDat.index]
+      rw [checkDat_index]
       rcases h.idx.lookup k with ⟨h1, h2⟩ | ⟨ra, rg, h1, h2, hsub⟩
       · rw [h1, h2]
       · rcases hsub with rfl | hra
         · rw [h1, h2]
         · exact absurd hk (h.np k ra h1 (by rw [hra]))
-    obtain ⟨i', f1, f2, f3⟩ := syncFold_lz a.pending (checkDat a) g.index []
-      (by rw [idxFree_checkDat.index]; exact h.idx) hks
+    have hgf : ∀ k ∈ a.pending, ∀ r, ilookup k g.index = some r → hasFlag r.flags (ncOf true) = false := by
+      intro k _ r hr
+      have := (allCached_lookup inv.cached.2 k r hr).2
+      rw [h.ge] at this; exact this
+    obtain ⟨i', f1, f2, f3⟩ := syncFold_lz a.pending (by rw [h.pending]; exact inv.pnodup) (checkDat a) g.index []
+      (by rw [checkDat_index]; exact h.idx) hks hgf
     generalize hFa : a.pending.foldl syncKey (checkDat a, []) = Fa at f1 f2 f3
     have hFg : g.pending.foldl syncKey (checkDat g, []) = (reidx Fa.1 i', Fa.2) := by
       rw [← h.pending, hcd, ← f1, ← f2]
     rw [hFg] at hLdef
     have hLM : L = reidx (logWritten Fa.1 Fa.2) i' := by
       rw [hLdef]; exact idxFree_logWritten Fa.2 Fa.1 i'
-    -- the state after the log write, on a's side
-    have hM : Lz (logWritten Fa.1 Fa.2) L := by
+    have hM : Lz [] (logWritten Fa.1 Fa.2) L := by
       rw [hLM]
-      refine ⟨rfl, ?_, fun k r _ _ => List.not_mem_nil⟩
+      refine ⟨rfl, ?_, fun _ _ _ _ => List.not_mem_nil, fun _ _ _ _ => List.not_mem_nil, rfl⟩
       show SubL (logWritten Fa.1 Fa.2).index i'
-      rw [(idxFree_logWritten Fa.2).index]; exact f3
+      rw [logWritten_index]; exact f3
     have hLf : L.failed = none := h3L.inv.cached.1
     have hFaf : Fa.1.failed = none := by
       have : (reidx (logWritten Fa.1 Fa.2) i').failed = none := by rw [← hLM]; exact hLf
@@ -766,23 +866,45 @@ theorem sync_lz {a g : DB} (h : Lz a g) (h3 : Inv3 g) (hs : SizeOK g) (hseq : g.
       rfl
     have hext : (logWritten Fa.1 Fa.2).extra = L.extra ∧ (logWritten Fa.1 Fa.2).opts = L.opts ∧
         (logWritten Fa.1 Fa.2).need = L.need := by rw [hLM]; exact ⟨rfl, rfl, rfl⟩
-    rw [ea, hL, hext.1, hext.2.1, hext.2.2]
-    split
-    · rw [defrag_lz hM h3L (by rw [hLds]; exact hseq)]
-      have hc := (defrag_cached L h3L.inv.cached).cached
-      exact Lz.refl _ hc.2
-    · exact hM
+    have R : Lz [] (sync a) (sync g) := by
+      rw [ea, hL, hext.1, hext.2.1, hext.2.2]
+      split
+      · exact defrag_lz hM h3L.inv.cached h3L.inv.nodup (hM.loads L rfl rfl pL h3L.inv)
+          (hM.lazy_seq L rfl rfl pL rfl h3L (by rw [hLds]; exact hseq))
+      · exact hM
+    have hpe : (sync a).pending = [] := R.pending.trans (sync_inv g inv hs).2.2.1
+    rw [hpe]
+    exact R
 
-/-! ### Browse -/
+/-! ### Browse: the real store may drop what it has just shown -/
 
-/-- the index Browse leaves on `a`'s side: skipped records stay as they are, visited ones are loaded -/
-def mixL (all : Bool) (w : List (Key × Nat)) : List (Key × Rec) → List (Key × Rec) → List (Key × Rec)
+theorem freerec_sub (e : Bool) (r : Rec) : Sub (freerec e r) r := by
+  unfold freerec
+  split
+  · exact Or.inr rfl
+  · exact Or.inl rfl
+
+theorem freerec_pos (e : Bool) (r : Rec) : (freerec e r).pos = r.pos := by
+  unfold freerec; split <;> rfl
+
+theorem freerec_none (e : Bool) (r : Rec) (hd : r.data.isSome = true) (h : (freerec e r).data = none) : r.pos ≠ 0 := by
+  unfold freerec at h
+  split at h
+  · rename_i hc
+    simp only [Bool.and_eq_true, bne_iff_ne, ne_eq] at hc
+    exact hc.2
+  · rw [h] at hd; cases hd
+
+/-- the index Browse leaves in the real store (`ea` is its ghost field): skipped records stay, visited ones are
+    loaded, flagged, and possibly dropped again -/
+def mixL (all : Bool) (w : List (Key × Nat)) (ea : Bool) : List (Key × Rec) → List (Key × Rec) → List (Key × Rec)
   | (ka, ra) :: ta, (kg, rg) :: tg =>
-      (if !all && hasFlag rg.flags NO_BROWSE then (ka, ra) else browseRec all w (kg, rg)) :: mixL all w ta tg
+      (if !all && hasFlag rg.flags NO_BROWSE then (ka, ra)
+       else (kg, freerec ea { rg with flags := applyBrowsingFlags rg.flags (walkRes w kg) })) :: mixL all w ea ta tg
   | _, _ => []
 
-theorem mixL_subL (all : Bool) (w : List (Key × Nat)) (la lg : List (Key × Rec)) (h : SubL la lg) :
-    SubL (mixL all w la lg) (lg.map (browseRec all w)) := by
+theorem mixL_subL (all : Bool) (w : List (Key × Nat)) (ea : Bool) (la lg : List (Key × Rec)) (h : SubL la lg) :
+    SubL (mixL all w ea la lg) (lg.map (browseRec all w)) := by
   induction la generalizing lg with
   | nil =>
     cases lg with
@@ -801,12 +923,17 @@ theorem mixL_subL (all : Bool) (w : List (Key × Nat)) (la lg : List (Key × Rec
         rw [e]
         simp only [hb, ↓reduceIte]
         exact ⟨rfl, hs, ih tg ht⟩
-      · simp only [hb, ↓reduceIte]
-        refine ⟨rfl, Sub.refl _, ih tg ht⟩
+      · have e : browseRec all w (ka, rg) = (ka, { rg with flags := applyBrowsingFlags rg.flags (walkRes w ka) }) := by
+          unfold browseRec; simp [hb]
+        rw [e]
+        simp only [hb, Bool.false_eq_true, ↓reduceIte]
+        exact ⟨rfl, freerec_sub _ _, ih tg ht⟩
 
-theorem mixL_lazy (all : Bool) (w : List (Key × Nat)) (la lg : List (Key × Rec)) (h : SubL la lg)
-    (hc : AllCached eg lg) (k : Key) (r : Rec) (hl : ilookup k (mixL all w la lg) = some r) (hd : r.data = none) :
-    ilookup k la = some r := by
+/-- a record of the new index comes from a record of the old one at the same place on disk; if it is not in memory,
+    the old one was not in memory or is on disk -/
+theorem mixL_lookup (all : Bool) (w : List (Key × Nat)) (ea : Bool) (la lg : List (Key × Rec)) (h : SubL la lg)
+    (hc : ∀ kr ∈ lg, kr.2.data.isSome = true) (k : Key) (r : Rec) (hl : ilookup k (mixL all w ea la lg) = some r) :
+    ∃ ra, ilookup k la = some ra ∧ ra.pos = r.pos ∧ (r.data = none → ra.data = none ∨ ra.pos ≠ 0) := by
   induction la generalizing lg with
   | nil =>
     cases lg with
@@ -824,29 +951,30 @@ theorem mixL_lazy (all : Bool) (w : List (Key × Nat)) (la lg : List (Key × Rec
       by_cases hb : (!all && hasFlag rg.flags NO_BROWSE) = true
       · simp only [hb, ↓reduceIte, ilookup] at hl ⊢
         by_cases hk : ka = k
-        · simp only [hk, ↓reduceIte] at hl ⊢; exact hl
+        · subst hk
+          simp only [↓reduceIte] at hl ⊢
+          cases hl
+          exact ⟨_, rfl, rfl, fun hd => Or.inl hd⟩
         · simp only [hk, ↓reduceIte] at hl ⊢
           exact ih tg ht (fun x hx => hc x (List.mem_cons_of_mem _ hx)) hl
-      · have e : (if (!all && hasFlag rg.flags NO_BROWSE) = true then (ka, ra) else browseRec all w (ka, rg)) =
-            (ka, { rg with flags := applyBrowsingFlags rg.flags (walkRes w ka) }) := by
-          unfold browseRec; simp [hb]
-        rw [e] at hl
-        simp only [ilookup] at hl ⊢
+      · simp only [hb, Bool.false_eq_true, ↓reduceIte, ilookup] at hl ⊢
         by_cases hk : ka = k
-        · simp only [hk, ↓reduceIte] at hl
+        · subst hk
+          simp only [↓reduceIte] at hl ⊢
           cases hl
-          have := hcg.1
-          simp only at hd
-          rw [hd] at this; cases this
+          refine ⟨ra, rfl, ?_, fun hd => Or.inr ?_⟩
+          · rw [freerec_pos]; exact hs.fields.2.1
+          · have := freerec_none ea { rg with flags := applyBrowsingFlags rg.flags (walkRes w ka) } hcg hd
+            rw [hs.fields.2.1]; exact this
         · simp only [hk, ↓reduceIte] at hl ⊢
           exact ih tg ht (fun x hx => hc x (List.mem_cons_of_mem _ hx)) hl
 
-theorem browseFold_lz (all : Bool) (w : List (Key × Nat)) (hw : WalkOK eg w) (db : DB) (hf : db.failed = none)
-    (la lg : List (Key × Rec)) (hs : SubL la lg) (hc : AllCached eg lg)
+theorem browseFold_lz (all : Bool) (w : List (Key × Nat)) (db : DB) (hf : db.failed = none)
+    (la lg : List (Key × Rec)) (hs : SubL la lg)
     (hload : ∀ k ra rg, (k, ra) ∈ la → (k, rg) ∈ lg → Sub ra rg → Qdb.loadrec db.fs ra = some rg)
     (acc : List (Key × Rec)) (out : List (Key × Bytes)) :
     la.foldl (browseStep all w) (db, acc, out) =
-      (db, acc ++ mixL all w la lg, out ++ lg.filterMap (browseOut all)) := by
+      (db, acc ++ mixL all w db.eager la lg, out ++ lg.filterMap (browseOut all)) := by
   induction la generalizing lg acc out with
   | nil =>
     cases lg with
@@ -859,45 +987,53 @@ theorem browseFold_lz (all : Bool) (w : List (Key × Nat)) (hw : WalkOK eg w) (d
       obtain ⟨ka, ra⟩ := x
       obtain ⟨kg, rg⟩ := y
       obtain ⟨rfl, hsub, ht⟩ := hs
-      have hcg := hc (ka, rg) List.mem_cons_self
       have hfl : ra.flags = rg.flags := hsub.fields.2.2.2
       have hstep : browseStep all w (db, acc, out) (ka, ra) =
-          (db, acc ++ [if !all && hasFlag rg.flags NO_BROWSE then (ka, ra) else browseRec all w (ka, rg)],
+          (db, acc ++ [if !all && hasFlag rg.flags NO_BROWSE then (ka, ra)
+            else (ka, freerec db.eager { rg with flags := applyBrowsingFlags rg.flags (walkRes w ka) })],
            out ++ (browseOut all (ka, rg)).toList) := by
-        unfold browseStep browseRec browseOut
+        unfold browseStep browseOut
         simp only [hf, hfl]
         by_cases hb : (!all && hasFlag rg.flags NO_BROWSE) = true
         · simp [hb]
         · simp only [hb, ↓reduceIte]
           rw [hload ka ra rg List.mem_cons_self List.mem_cons_self hsub]
-          simp only []
-          rw [freerec_cached _ (applyBF_keeps_noNC _ _ hcg.2 (walkRes_ok w hw ka))]
           simp
       simp only [List.foldl_cons, hstep]
-      rw [ih tg ht (fun x hx => hc x (List.mem_cons_of_mem _ hx))
+      rw [ih tg ht
         (fun k r1 r2 h1 h2 h3 => hload k r1 r2 (List.mem_cons_of_mem _ h1) (List.mem_cons_of_mem _ h2) h3)]
       simp only [mixL, List.filterMap_cons]
       cases hb : browseOut all (ka, rg) <;> simp
 
-theorem browseGen_lz (all : Bool) {a g : DB} (h : Lz a g) (inv : DiskInv g) (w : List (Key × Nat)) (hw : WalkOK eg w) :
-    Lz (browseGen all a w).1 (browseGen all g w).1 ∧ (browseGen all a w).2 = (browseGen all g w).2 := by
-  have hfa : a.failed = none := h.failed.trans inv.cached.1
-  obtain ⟨g1, g2⟩ := browseGen_cached all g w inv.cached hw
-  have hnd := h.nodup inv
-  have hfold := browseFold_lz all w hw a hfa a.index g.index h.idx inv.cached.2
-    (fun k ra rg h1 h2 h3 => h.loadrec inv k ra rg (ilookup_of_mem_nodup _ hnd k ra h1)
-      (ilookup_of_mem_nodup _ inv.nodup k rg h2) h3) [] []
-  have ea : browseGen all a w = ({ a with index := mixL all w a.index g.index }, g.index.filterMap (browseOut all)) := by
+theorem browseGen_lz (all : Bool) {P : List Key} {a g : DB} (h : Lz P a g) (hc : Cached g) (hnd : (Keys g.index).Nodup)
+    (hl : Loads a g) (w : List (Key × Nat)) (hw : WalkOK true w) :
+    Lz P (browseGen all a w).1 (browseGen all g w).1 ∧ (browseGen all a w).2 = (browseGen all g w).2 := by
+  have hfa : a.failed = none := h.failed.trans hc.1
+  obtain ⟨g1, g2⟩ := browseGen_cached all g w hc (by rw [h.ge]; exact hw)
+  have hnda : (Keys a.index).Nodup := by rw [h.idx.keys]; exact hnd
+  have hfold := browseFold_lz all w a hfa a.index g.index h.idx
+    (fun k ra rg h1 h2 h3 => hl k ra rg (ilookup_of_mem_nodup _ hnda k ra h1)
+      (ilookup_of_mem_nodup _ hnd k rg h2) h3) [] []
+  have ea : browseGen all a w = ({ a with index := mixL all w a.eager a.index g.index }, g.index.filterMap (browseOut all)) := by
     unfold browseGen
     simp only [hfa, Option.isSome_none, Bool.false_eq_true, ↓reduceIte]
     rw [hfold]
     simp [hfa]
   rw [ea, g1, g2]
-  refine ⟨⟨h.sh, mixL_subL all w _ _ h.idx, ?_⟩, rfl⟩
-  intro k r hl hd
-  exact h.np k r (mixL_lazy all w _ _ h.idx inv.cached.2 k r hl hd) hd
+  have hcd : ∀ kr ∈ g.index, kr.2.data.isSome = true := fun kr hkr => (hc.2 kr hkr).1
+  refine ⟨⟨h.sh, mixL_subL all w _ _ _ h.idx, ?_, ?_, h.ge⟩, rfl⟩
+  · intro k r hlk hd
+    obtain ⟨ra, h1, h2, h3⟩ := mixL_lookup all w a.eager _ _ h.idx hcd k r hlk
+    rcases h3 hd with h4 | h4
+    · exact h.np k ra h1 h4
+    · exact h.pz k ra h1 h4
+  · intro k r hlk hp
+    obtain ⟨ra, h1, h2, _⟩ := mixL_lookup all w a.eager _ _ h.idx hcd k r hlk
+    exact h.pz k ra h1 (by rw [h2]; exact hp)
 
-/-! ### every operation other than a reopen -/
+/-! ### every operation of a non-volatile store other than a reopen -/
+
+theorem Lz.cast {P Q : List Key} {a g : DB} (h : Lz P a g) (e : P = Q) : Lz Q a g := e ▸ h
 
 theorem syncneeded_shell {a g : DB} (h : shell a = shell g) : syncneeded a = syncneeded g := by
   have h1 : a.volatile = g.volatile := (congrArg DB.volatile h : (shell a).volatile = (shell g).volatile)
@@ -907,10 +1043,17 @@ theorem syncneeded_shell {a g : DB} (h : shell a = shell g) : syncneeded a = syn
   unfold syncneeded
   rw [h1, h2, h3, h4]
 
-theorem afterChange_lz (Ma Mg : DB) (k : Key) (h : Lz (addPending Ma k) (addPending Mg k))
+theorem addPending_lz {P : List Key} {Ma Mg : DB} (k : Key) (h : Lz P Ma Mg) (hp : pendingAdd Ma.pending k = P) :
+    Lz (addPending Ma k).pending (addPending Ma k) (addPending Mg k) := by
+  have hpe : Ma.pending = Mg.pending := h.pending
+  subst hp
+  rw [addPending_same, addPending_same, ← hpe]
+  exact ⟨congrArg (fun d : DB => { d with pending := pendingAdd Ma.pending k }) h.sh, h.idx, h.np, h.pz, h.ge⟩
+
+theorem afterChange_lz (Ma Mg : DB) (k : Key) (h : Lz (addPending Ma k).pending (addPending Ma k) (addPending Mg k))
     (h3 : Inv3 (addPending Mg k)) (hs : SizeOK (addPending Mg k)) (hseq : (addPending Mg k).dataSeq + 1 < 2^32)
     (hva : Ma.volatile = false) (hvg : Mg.volatile = false) :
-    Lz (afterChange Ma k) (afterChange Mg k) := by
+    Lz (afterChange Ma k).pending (afterChange Ma k) (afterChange Mg k) := by
   unfold afterChange
   simp only [hva, hvg, Bool.false_eq_true, ↓reduceIte]
   rw [syncneeded_shell h.sh]
@@ -918,62 +1061,104 @@ theorem afterChange_lz (Ma Mg : DB) (k : Key) (h : Lz (addPending Ma k) (addPend
   · exact sync_lz h h3 hs hseq
   · exact h
 
-theorem step_lz {a g : DB} (h : Lz a g) (h3 : Inv3 g) (op : Op) (hnr : ∀ x y z, op ≠ .reopen x y z) (ok : OpOK eg op)
-    (fits : OpFits g op) (hseq : (preSync g op).dataSeq + 1 < 2^32) : Lz (step a op) (step g op) := by
+theorem step_lz {a g : DB} (h : Lz a.pending a g) (h3 : Inv3 g) (op : Op) (hnr : ∀ x y z, op ≠ .reopen x y z)
+    (ok : OpOK true op) (fits : OpFits g op) (hseq : (preSync g op).dataSeq + 1 < 2^32) :
+    Lz (step a op).pending (step a op) (step g op) := by
   have inv := h3.inv
   have i2 := h3.i2
   have hfa : a.failed = none := h.failed.trans inv.cached.1
   have hva : a.volatile = false := h.volatile.trans inv.nv
+  have hl : Loads a g := h.loads g rfl rfl h.pending.symm inv
+  have okg : ∀ {o : Op}, OpOK true o → OpOK g.eager o := fun ho => by rw [h.ge]; exact ho
   cases op with
   | reopen x y z => exact absurd rfl (hnr x y z)
   | put k v =>
     obtain ⟨f1, f2, f3⟩ := fits
-    show Lz (putExt a k v 0) (putExt g k v 0)
+    show Lz (putExt a k v 0).pending (putExt a k v 0) (putExt g k v 0)
     unfold putExt
     rw [if_neg (by simp [hfa]), if_neg (notFailed inv.cached)]
     obtain ⟨e, n, m, hmp⟩ := memput_same g k (newRec v 0)
-    have hM := putExt_addPending_inv g inv k v 0 f1 f2 (by decide) (by decide)
+    obtain ⟨e', n', m', hmpa⟩ := memput_same a k (newRec v 0)
+    have hM := putExt_addPending_inv g inv k v 0 f1 f2 (by decide) (zeroFlags_ok _)
     have hM2 : Inv2 (addPending (memput g k (newRec v 0)) k) := by
       rw [addPending_same, hmp]; exact inv2_same i2 rfl rfl rfl rfl
-    exact afterChange_lz _ _ k (putPending_lz h k (newRec v 0) rfl) ⟨hM, hM2⟩ f3 hseq
+    exact afterChange_lz _ _ k
+      (addPending_lz k (memput_lz h k (newRec v 0) rfl rfl) (by rw [hmpa]))
+      ⟨hM, hM2⟩ f3 hseq
       (by rw [(memput_spec a k _).2.2.1]; exact hva) (by rw [(memput_spec g k _).2.2.1]; exact inv.nv)
   | putExt k v f =>
     obtain ⟨f1, f2, f3, f4⟩ := fits
-    show Lz (putExt a k v f) (putExt g k v f)
+    show Lz (putExt a k v f).pending (putExt a k v f) (putExt g k v f)
     unfold putExt
     rw [if_neg (by simp [hfa]), if_neg (notFailed inv.cached)]
     obtain ⟨e, n, m, hmp⟩ := memput_same g k (newRec v f)
-    have hM := putExt_addPending_inv g inv k v f f1 f2 f3 ok
+    obtain ⟨e', n', m', hmpa⟩ := memput_same a k (newRec v f)
+    have hM := putExt_addPending_inv g inv k v f f1 f2 f3 (okg ok)
     have hM2 : Inv2 (addPending (memput g k (newRec v f)) k) := by
       rw [addPending_same, hmp]; exact inv2_same i2 rfl rfl rfl rfl
-    exact afterChange_lz _ _ k (putPending_lz h k (newRec v f) rfl) ⟨hM, hM2⟩ f4 hseq
+    exact afterChange_lz _ _ k
+      (addPending_lz k (memput_lz h k (newRec v f) rfl rfl) (by rw [hmpa]))
+      ⟨hM, hM2⟩ f4 hseq
       (by rw [(memput_spec a k _).2.2.1]; exact hva) (by rw [(memput_spec g k _).2.2.1]; exact inv.nv)
   | del k =>
-    show Lz (del a k) (del g k)
+    show Lz (del a k).pending (del a k) (del g k)
     unfold del
     rw [if_neg (by simp [hfa]), if_neg (notFailed inv.cached)]
     obtain ⟨e, n, hmd⟩ := memdel_same g k
+    obtain ⟨e', n', hmda⟩ := memdel_same a k
     have hM := del_addPending_inv g inv k fits.1
     have hM2 : Inv2 (addPending (memdel g k) k) := by
       rw [addPending_same, hmd]; exact inv2_same i2 rfl rfl rfl rfl
-    exact afterChange_lz _ _ k (delPending_lz h inv k) ⟨hM, hM2⟩ fits.2 hseq
+    exact afterChange_lz _ _ k
+      (addPending_lz k (memdel_lz h inv.nodup k) (by rw [hmda]))
+      ⟨hM, hM2⟩ fits.2 hseq
       (by rw [(memdel_spec a k).2.2.1]; exact hva) (by rw [(memdel_spec g k).2.2.1]; exact inv.nv)
-  | get k => exact (get_lz h inv k).1
-  | browse w => exact (browseGen_lz false h inv w ok).1
-  | applyFlags k fl => exact applyFlags_lz h inv k fl
-  | noSync => exact noSyncOp_lz h inv
+  | get k =>
+    have r := (get_lz h inv.cached hl k).1
+    have hp : (Qdb.get a k).1.pending = a.pending := by
+      have := r.pending
+      have hg : (Qdb.get g k).1.pending = g.pending := by
+        unfold Qdb.get
+        rw [if_neg (notFailed inv.cached)]
+        cases hlk : ilookup k g.index with
+        | none => rfl
+        | some rr => simp only [loadrec_cached g.fs rr (allCached_lookup inv.cached.2 k rr hlk)]
+      exact this.trans (hg.trans h.pending.symm)
+    exact r.cast hp.symm
+  | browse w =>
+    have r := (browseGen_lz false h inv.cached inv.nodup hl w ok).1
+    have hp : (browseGen false a w).1.pending = a.pending := by
+      have hg : (browseGen false g w).1.pending = g.pending := by
+        rw [(browseGen_cached false g w inv.cached (okg ok)).1]
+      exact r.pending.trans (hg.trans h.pending.symm)
+    exact r.cast hp.symm
+  | applyFlags k fl =>
+    have r := applyFlags_lz h inv.cached k fl
+    have hp : (applyFlags a k fl).pending = a.pending := by
+      have hg : (applyFlags g k fl).pending = g.pending := by
+        unfold applyFlags
+        rw [if_neg (notFailed inv.cached)]
+        cases ilookup k g.index <;> rfl
+      exact r.pending.trans (hg.trans h.pending.symm)
+    exact r.cast hp.symm
+  | noSync =>
+    show Lz (noSyncOp a).pending (noSyncOp a) (noSyncOp g)
+    have ea : noSyncOp a = { a with noSync := true } := by unfold noSyncOp; simp [hfa, hva]
+    have eg' : noSyncOp g = { g with noSync := true } := by unfold noSyncOp; simp [inv.cached.1, inv.nv]
+    rw [ea, eg']
+    exact ⟨congrArg (fun d : DB => { d with noSync := true }) h.sh, h.idx, h.np, h.pz, h.ge⟩
   | sync =>
-    show Lz (syncOp a) (syncOp g)
+    show Lz (syncOp a).pending (syncOp a) (syncOp g)
     have ea : syncOp a = sync { a with noSync := false } := by
       unfold syncOp; rw [if_neg (by simp [hfa]), if_neg (by simp [hva])]
-    have eg : syncOp g = sync { g with noSync := false } := by
+    have eg' : syncOp g = sync { g with noSync := false } := by
       unfold syncOp; rw [if_neg (notFailed inv.cached), if_neg (by simp [inv.nv])]
-    rw [ea, eg]
-    have h' : Lz { a with noSync := false } { g with noSync := false } :=
-      ⟨congrArg (fun d : DB => { d with noSync := false }) h.sh, h.idx, h.np⟩
+    rw [ea, eg']
+    have h' : Lz ({ a with noSync := false } : DB).pending { a with noSync := false } { g with noSync := false } :=
+      ⟨congrArg (fun d : DB => { d with noSync := false }) h.sh, h.idx, h.np, h.pz, h.ge⟩
     exact sync_lz h' ⟨inv_noSync g inv false, inv2_same i2 rfl rfl rfl rfl⟩ fits hseq
   | defrag f =>
-    show Lz (defragOp a f).1 (defragOp g f).1
+    show Lz (defragOp a f).1.pending (defragOp a f).1 (defragOp g f).1
     have hx : a.extra = g.extra := (congrArg DB.extra h.sh : (shell a).extra = (shell g).extra)
     have hn : a.need = g.need := (congrArg DB.need h.sh : (shell a).need = (shell g).need)
     have ho : a.opts = g.opts := (congrArg DB.opts h.sh : (shell a).opts = (shell g).opts)
@@ -981,270 +1166,139 @@ theorem step_lz {a g : DB} (h : Lz a g) (h3 : Inv3 g) (op : Op) (hnr : ∀ x y z
       unfold defragOp; rw [if_neg (by simp [hfa]), if_neg (by simp [hva]), hx, hn, ho]
       dsimp only
       split <;> rfl
-    have eg : (defragOp g f).1 = if (f || decide (g.extra > g.opts.defragPerc * g.need / 100)) = true then defrag g else g := by
+    have eg' : (defragOp g f).1 = if (f || decide (g.extra > g.opts.defragPerc * g.need / 100)) = true then defrag g else g := by
       unfold defragOp; rw [if_neg (notFailed inv.cached), if_neg (by simp [inv.nv])]
       dsimp only
       split <;> rfl
-    rw [ea, eg]
+    rw [ea, eg']
     split
-    · rw [defrag_lz h h3 hseq]
-      exact Lz.refl _ (defrag_cached g inv.cached).cached.2
+    · have r := defrag_lz h inv.cached inv.nodup hl (h.lazy_seq g rfl rfl h.pending.symm rfl h3 hseq)
+      have hp : (defrag a).pending = [] :=
+        r.pending.trans (defrag_inv g inv.cached inv.nv ⟨inv.cached.2, inv.wf, inv.nodup, fits.2⟩).2.2
+      rw [hp]; exact r
     · exact h
 
-theorem close_nv (d : DB) (hf : d.failed = none) (hv : d.volatile = false) (hs : (sync d).failed = none) :
-    close d = { sync d with datOpen := false, logOpen := false, index := [], pending := [] } := by
-  unfold close
-  rw [if_neg (by simp [hf])]
-  simp only [hv, Bool.false_eq_true, ↓reduceIte]
-  split
-  · rename_i w hw; rw [hs] at hw; cases hw
-  · rfl
+/-! ### NewDBExt: `NewDBidx` does not look at the ghost field; `load` skips what the real store need not hold -/
 
-/-- Close leaves the two stores EQUAL (nothing is in memory any more) -/
-theorem close_lz {a g : DB} (h : Lz a g) (h3 : Inv3 g) (hs : SizeOK g) (hseq : g.dataSeq + 1 < 2^32) :
-    close a = close g := by
-  have inv := h3.inv
-  have hfa : a.failed = none := h.failed.trans inv.cached.1
-  have hva : a.volatile = false := h.volatile.trans inv.nv
-  have hl := sync_lz h h3 hs hseq
-  have hsf : (sync g).failed = none := (sync_inv g inv hs).1.cached.1
-  rw [close_nv a hfa hva (hl.failed.trans hsf), close_nv g inv.cached.1 inv.nv hsf]
-  have := congrArg (fun d : DB => { d with datOpen := false, logOpen := false, pending := [] }) hl.sh
-  exact this
+def setE (d : DB) (e : Bool) : DB := { d with eager := e }
 
-/-! ### NewDBExt with LoadData = false -/
+theorem memput_setE (d : DB) (e : Bool) (k : Key) (r : Rec) : memput (setE d e) k r = setE (memput d k r) e := by
+  unfold memput setE
+  dsimp only
+  cases ilookup k d.index <;> cases hv : d.volatile <;>
+    simp only [hv, Bool.false_eq_true, ↓reduceIte] <;> split <;> rfl
 
-theorem subL_loaded (fs : FS) (l : List (Key × Rec)) (h : NoData l) : SubL l (mapV (loadedRec fs) l) := by
-  induction l with
-  | nil => trivial
+theorem memdel_setE (d : DB) (e : Bool) (k : Key) : memdel (setE d e) k = setE (memdel d k) e := by
+  unfold memdel setE
+  dsimp only
+  cases ilookup k d.index with
+  | none => rfl
+  | some p =>
+    cases hv : d.volatile <;> simp only [hv, Bool.false_eq_true, ↓reduceIte]
+
+theorem memputAll_setE (recs : List (Key × Rec)) (d : DB) (e : Bool) :
+    memputAll (setE d e) recs = setE (memputAll d recs) e := by
+  unfold memputAll
+  induction recs generalizing d with
+  | nil => rfl
+  | cons x t ih => simp only [List.foldl_cons]; rw [memput_setE]; exact ih _
+
+theorem applyLog_setE (es : List LogEntry) (d : DB) (e : Bool) : applyLog (setE d e) es = setE (applyLog d es) e := by
+  unfold applyLog
+  induction es generalizing d with
+  | nil => rfl
   | cons x t ih =>
-    obtain ⟨k, r⟩ := x
-    refine ⟨rfl, Or.inr ?_, ih (fun kr hkr => h kr (List.mem_cons_of_mem _ hkr))⟩
-    have hd : r.data = none := h (k, r) List.mem_cons_self
-    unfold loadedRec
-    cases r
-    simp only at hd
-    simp [hd]
+    simp only [List.foldl_cons]
+    cases x with
+    | put k r => show List.foldl applyEntry (memput (setE d e) k r) t = _; rw [memput_setE]; exact ih _
+    | del k => show List.foldl applyEntry (memdel (setE d e) k) t = _; rw [memdel_setE]; exact ih _
 
-/-- the lazily opened store is related to the eagerly opened one -/
-theorem lazyOpen_lz (F : FS) (opts : Opts) (h : OpenOK eg F) :
-    Lz (openDB F false false opts eg) (openDB F false true opts eg) := by
-  have key : ∀ (F' : FS) (S : OpenState F' false (openIndex { fs := F, volatile := false, opts := opts, eager := eg }))
-      (hR : DirReadable eg F'), Lz (openDB F false false opts eg) (openDB F false true opts eg) := by
-    intro F' S hR
-    generalize hX : openIndex { fs := F, volatile := false, opts := opts, eager := eg } = X at S
-    have hload := loadAll_of_openState F' false X S hR
-    have e1 : openDB F false false opts eg = { X with dataSeq := u32 (X.maxSeq + 1) } := by
-      unfold openDB
-      simp only [Bool.false_eq_true, ↓reduceIte]
-      rw [hX]
-    have e2 : openDB F false true opts eg =
-        { X with index := mapV (loadedRec X.fs) (diskIndex F'), dataSeq := u32 (X.maxSeq + 1) } := by
-      unfold openDB
-      simp only [↓reduceIte]
-      rw [hX, hload]
-    rw [e1, e2]
-    refine ⟨rfl, ?_, ?_⟩
-    · show SubL X.index (mapV (loadedRec X.fs) (diskIndex F'))
-      rw [S.index]
-      exact subL_loaded X.fs _ (diskIndex_noData F')
-    · intro k r _ _
-      show k ∉ X.pending
-      rw [S.pending]; exact List.not_mem_nil
-  rcases h.log with ⟨E, hE, hlog⟩ | hd
-  · exact key F (open_state F false opts E hE hlog h.ver) h.readable
-  · have hR : DirReadable eg (noLog F) := by
-      intro kr hkr
-      rw [diskIndex_noLog F hd] at hkr
-      exact h.readable kr hkr
-    exact key (noLog F) (open_state_discard F false opts hd) hR
+theorem cleanupold_setE (x : DB) (used : List Nat) (e : Bool) : cleanupold (setE x e) used = setE (cleanupold x used) e := by
+  unfold cleanupold
+  have hd : (setE x e).fs = x.fs := rfl
+  rw [hd]
+  generalize (sortNat (x.fs.dats.map (·.1))) = l
+  induction l generalizing x with
+  | nil => rfl
+  | cons s t ih =>
+    simp only [List.foldl_cons]
+    have hds : (setE x e).dataSeq = x.dataSeq := rfl
+    by_cases hc : s ≠ x.dataSeq ∧ ¬ used.contains s = true
+    · rw [if_pos (by rw [hds]; exact hc), if_pos hc]
+      exact ih (emit x "qdb.cleanupold:removed" (.removeDat s)) rfl
+    · rw [if_neg (by rw [hds]; exact hc), if_neg hc]
+      exact ih x rfl
 
-/-! ### the eager twin of a history -/
-
-/-- the same operation with LoadData = true -/
-def twinOp : Op → Op
-  | .reopen v _ o => .reopen v true o
-  | op => op
-
-def twinItem : HItem → HItem
-  | .op o => .op (twinOp o)
-  | .crash o n ms vol opts => .crash (twinOp o) n ms vol opts
-
-/-- the same history in which every NewDBExt loads the data at once -/
-def twin (H : List HItem) : List HItem := H.map twinItem
-
-/-- operations of the sub-language with lazy loading: no NO_CACHE flag; Close + NewDBExt with LoadData = true in
-    either mode, or with LoadData = false in non-volatile mode -/
-def OpOK4 (e : Bool) : Op → Prop
-  | .reopen vol load _ => load = true ∨ vol = false
-  | op => OpOK eg op
-
-theorem opOK3_twin (op : Op) (h : OpOK4 eg op) : OpOK3 eg (twinOp op) := by
-  cases op <;> first | exact h | rfl
-
-/-- the lazily loading store `a` and its eager twin `g` -/
-def Twin (a g : DB) : Prop := (a = g ∧ SInv g) ∨ (Lz a g ∧ Inv3 g)
-
-theorem Twin.sinv {a g : DB} (h : Twin a g) : SInv g := by
-  rcases h with ⟨_, h⟩ | ⟨_, h⟩
-  · exact h
-  · exact Or.inl h
-
-theorem Twin.fs {a g : DB} (h : Twin a g) : a.fs = g.fs := by
-  rcases h with ⟨rfl, _⟩ | ⟨h, _⟩
-  · rfl
-  · exact h.fs
-
-theorem Twin.effs {a g : DB} (h : Twin a g) : a.effs = g.effs := by
-  rcases h with ⟨rfl, _⟩ | ⟨h, _⟩
-  · rfl
-  · exact h.effs
-
-theorem Twin.failed {a g : DB} (h : Twin a g) : a.failed = none := by
-  rcases h with ⟨rfl, h⟩ | ⟨h, h3⟩
-  · exact h.cached.1
-  · exact h.failed.trans h3.inv.cached.1
-
-/-- one operation on a store whose records are all in memory, against its twin -/
-theorem twin_step_eq (g : DB) (h : SInv g) (op : Op) (ok : OpOK4 eg op) (fits : OpFits3 g (twinOp op))
-    (hd : DFits (preSync g (twinOp op))) : Twin (step g op) (step g (twinOp op)) := by
-  have S := stepOK g h (twinOp op) (opOK3_twin op ok) fits hd
-  cases op with
-  | reopen vol load opts =>
-    cases load with
-    | true => exact Or.inl ⟨rfl, S.inv⟩
-    | false =>
-      have hv : vol = false := by
-        rcases ok with h | h
-        · cases h
-        · exact h
-      subst hv
-      have c : Closed g := by
-        rcases h with h | h
-        · exact nclose g h fits.1 hd
-        · exact vclose g h fits.1.2 hd
-      obtain ⟨hi, _⟩ := reopen_from g c false opts fits.2
-      have h3 : Inv3 (step g (.reopen false true opts)) := by
-        rcases hi with ⟨_, h⟩ | ⟨hx, _⟩
-        · exact h
-        · cases hx
-      refine Or.inr ⟨?_, h3⟩
-      have hl := lazyOpen_lz (close g).fs opts c.ok
-      have e1 : step g (.reopen false false opts) = { openDB (close g).fs false false opts eg with
-          effs := (close g).effs ++ (openDB (close g).fs false false opts eg).effs } := by
-        show (match (close g).failed with
-          | some _ => close g
-          | none => { openDB (close g).fs false false opts eg with
-                      effs := (close g).effs ++ (openDB (close g).fs false false opts eg).effs }) = _
-        rw [c.failed]
-      have e2 : step g (.reopen false true opts) = { openDB (close g).fs false true opts eg with
-          effs := (close g).effs ++ (openDB (close g).fs false true opts eg).effs } := by
-        show (match (close g).failed with
-          | some _ => close g
-          | none => { openDB (close g).fs false true opts eg with
-                      effs := (close g).effs ++ (openDB (close g).fs false true opts eg).effs }) = _
-        rw [c.failed]
-      show Lz (step g (.reopen false false opts)) (step g (twinOp (.reopen false false opts)))
-      have e3 : twinOp (.reopen false false opts) = .reopen false true opts := rfl
-      rw [e3, e1, e2]
-      exact ⟨congrArg (fun d : DB => { d with effs := (close g).effs ++ d.effs }) hl.sh, hl.idx, hl.np⟩
-  | put k v => exact Or.inl ⟨rfl, S.inv⟩
-  | putExt k v f => exact Or.inl ⟨rfl, S.inv⟩
-  | del k => exact Or.inl ⟨rfl, S.inv⟩
-  | get k => exact Or.inl ⟨rfl, S.inv⟩
-  | browse w => exact Or.inl ⟨rfl, S.inv⟩
-  | applyFlags k fl => exact Or.inl ⟨rfl, S.inv⟩
-  | defrag f => exact Or.inl ⟨rfl, S.inv⟩
-  | sync => exact Or.inl ⟨rfl, S.inv⟩
-  | noSync => exact Or.inl ⟨rfl, S.inv⟩
-
-/-- one operation, lazily loading store against its twin -/
-theorem twin_step (a g : DB) (h : Twin a g) (op : Op) (ok : OpOK4 eg op) (fits : OpFits3 g (twinOp op))
-    (hd : DFits (preSync g (twinOp op))) : Twin (step a op) (step g (twinOp op)) := by
-  rcases h with ⟨rfl, h⟩ | ⟨hl, h3⟩
-  · exact twin_step_eq a h op ok fits hd
-  · cases op with
-    | reopen vol load opts =>
-      have hc : close a = close g := close_lz hl h3 fits.1 hd.seq
-      have e : step a (.reopen vol load opts) = step g (.reopen vol load opts) := by
-        show (match (close a).failed with
-          | some _ => close a
-          | none => { openDB (close a).fs vol load opts eg with
-                      effs := (close a).effs ++ (openDB (close a).fs vol load opts eg).effs }) = _
-        rw [hc]
+theorem openIndex_setE (d : DB) (e : Bool) : openIndex (setE d e) = setE (openIndex d) e := by
+  unfold openIndex
+  dsimp only
+  have h1 : loaddat (setE d e) = (setE (loaddat d).1 e, (loaddat d).2) := by
+    unfold loaddat
+    have hfs : (setE d e).fs = d.fs := rfl
+    rw [hfs]
+    cases pickIdx d.fs with
+    | none => rfl
+    | some t =>
+      obtain ⟨i, sv, b⟩ := t
+      simp only []
+      have : ({ emit (setE d e) "qdb.loadneweridx:removed" (.removeIdx (1 - i)) with datIdx := i, verSeq := sv } : DB) =
+          setE { emit d "qdb.loadneweridx:removed" (.removeIdx (1 - i)) with datIdx := i, verSeq := sv } e := rfl
+      rw [this, memputAll_setE]
+  rw [h1]
+  dsimp only
+  have h2 : ∀ (a : DB) (u : List Nat), loadlog (setE a e) u = (setE (loadlog a u).1 e, (loadlog a u).2) := by
+    intro a u
+    unfold loadlog
+    have hfs : (setE a e).fs = a.fs := rfl
+    have hvs : (setE a e).verSeq = a.verSeq := rfl
+    rw [hfs, hvs]
+    cases a.fs.log with
+    | none => rfl
+    | some f =>
+      simp only []
+      cases logBody f a.verSeq with
+      | none => rfl
+      | some body =>
+        simp only []
+        rw [applyLog_setE]
         rfl
-      rw [e]
-      exact twin_step_eq g (Or.inl h3) _ ok fits hd
-    | put k v =>
-      exact Or.inr ⟨step_lz hl h3 (.put k v) (fun _ _ _ => by simp) ok fits hd.seq, (step_inv3' g h3 (.put k v) ok fits).1⟩
-    | putExt k v f =>
-      exact Or.inr ⟨step_lz hl h3 (.putExt k v f) (fun _ _ _ => by simp) ok fits hd.seq, (step_inv3' g h3 (.putExt k v f) ok fits).1⟩
-    | del k =>
-      exact Or.inr ⟨step_lz hl h3 (.del k) (fun _ _ _ => by simp) ok fits hd.seq, (step_inv3' g h3 (.del k) ok fits).1⟩
-    | get k =>
-      exact Or.inr ⟨step_lz hl h3 (.get k) (fun _ _ _ => by simp) ok fits hd.seq, (step_inv3' g h3 (.get k) ok fits).1⟩
-    | browse w =>
-      exact Or.inr ⟨step_lz hl h3 (.browse w) (fun _ _ _ => by simp) ok fits hd.seq, (step_inv3' g h3 (.browse w) ok fits).1⟩
-    | applyFlags k fl =>
-      exact Or.inr ⟨step_lz hl h3 (.applyFlags k fl) (fun _ _ _ => by simp) ok fits hd.seq, (step_inv3' g h3 (.applyFlags k fl) ok fits).1⟩
-    | defrag f =>
-      exact Or.inr ⟨step_lz hl h3 (.defrag f) (fun _ _ _ => by simp) ok fits hd.seq, (step_inv3' g h3 (.defrag f) ok fits).1⟩
-    | sync =>
-      exact Or.inr ⟨step_lz hl h3 (.sync) (fun _ _ _ => by simp) ok fits hd.seq, (step_inv3' g h3 (.sync) ok fits).1⟩
-    | noSync =>
-      exact Or.inr ⟨step_lz hl h3 (.noSync) (fun _ _ _ => by simp) ok fits hd.seq, (step_inv3' g h3 (.noSync) ok fits).1⟩
+  rw [h2]
+  dsimp only
+  exact cleanupold_setE _ _ _
 
-/-- EVERY history, lazily loading store against its eager twin: the two runs stay related — same directory, same
-    file operations (hence the same crash directories), and the lazily loading store holds the twin's records,
-    some of them not in memory. -/
-theorem twin_run (H : List HItem) (a g : DB) (h : Twin a g) (ok : ∀ i ∈ H, OpOK4 eg (itemOp i))
-    (fits : HFits g (twin H)) : Twin (hrun a H) (hrun g (twin H)) := by
-  induction H generalizing a g with
-  | nil => exact h
-  | cons i t ih =>
-    cases i with
-    | op o =>
-      have oko := ok (.op o) List.mem_cons_self
-      obtain ⟨f1, f2, f3⟩ := fits
-      exact ih (step a o) (step g (twinOp o)) (twin_step a g h o oko f1 f2)
-        (fun x hx => ok x (List.mem_cons_of_mem _ hx)) f3
-    | crash o n ms vol opts =>
-      have oko := ok (.crash o n ms vol opts) List.mem_cons_self
-      obtain ⟨f1, f2, f3, f4⟩ := fits
-      have hs := twin_step a g h o oko f1 f2
-      have hcd : crashDir a o n = crashDir g (twinOp o) n := by
-        unfold crashDir opEffs
-        rw [h.fs, h.effs, hs.effs]
-      have he : hstep a (.crash o n ms vol opts) = hstep g (.crash (twinOp o) n ms vol opts) := by
-        show openDB (recrash opts (crashDir a o n) ms) vol true opts eg =
-          openDB (recrash opts (crashDir g (twinOp o) n) ms) vol true opts eg
-        rw [hcd]
-      have hsi : SInv (hstep g (.crash (twinOp o) n ms vol opts)) :=
-        (hrun_dur [.crash (twinOp o) n ms vol opts] g h.sinv
-          (fun x hx => by
-            rcases List.mem_singleton.mp hx with rfl
-            exact opOK3_twin o oko)
-          ⟨f1, f2, f3, trivial⟩).1
-      refine ih _ _ (Or.inl ⟨he, hsi⟩) (fun x hx => ok x (List.mem_cons_of_mem _ hx)) f4
-
-theorem itemOp_twin (i : HItem) : itemOp (twinItem i) = twinOp (itemOp i) := by
-  cases i <;> rfl
-
-theorem hok_twin (H : List HItem) (ok : ∀ i ∈ H, OpOK4 eg (itemOp i)) : ∀ i ∈ twin H, HOK eg i := by
-  intro i hi
-  obtain ⟨j, hj, rfl⟩ := List.mem_map.mp hi
-  show OpOK3 eg (itemOp (twinItem j))
-  rw [itemOp_twin]
-  exact opOK3_twin _ (ok j hj)
-
-/-- what a lazily loading store shows, against its twin -/
-theorem Twin.observe {a g : DB} (h : Twin a g) :
-    (∀ k, (Qdb.get a k).1.failed = none ∧ (Qdb.get a k).2 = vals g k) ∧
-    (∀ w, WalkOK eg w → (browse a w).2 = (browse g w).2) ∧ count a = count g := by
-  rcases h with ⟨rfl, h⟩ | ⟨h, h3⟩
-  · exact ⟨fun k => ⟨(get_cached a k h.cached).1.1, (get_cached a k h.cached).2.2⟩, fun _ _ => rfl, rfl⟩
-  · refine ⟨fun k => ?_, fun w hw => (browseGen_lz false h h3.inv w hw).2, h.idx.length⟩
-    obtain ⟨l, e⟩ := get_lz h h3.inv k
-    exact ⟨l.failed.trans (get_cached g k h3.inv.cached).1.1, e.trans (get_cached g k h3.inv.cached).2.2⟩
+/-- `load` in the real store: every record ends up loaded or stays as it is (not in memory) -/
+theorem loadFold_sub (l : List (Key × Rec)) (hn : NoData l) (d : DB) (hf : d.failed = none)
+    (hl : ∀ kr ∈ l, ∃ f v, dlookup kr.2.seq d.fs.dats = some f ∧ ReadsBack f kr.2 v) (acc : List (Key × Rec)) :
+    ∃ l', l.foldl loadOne (d, acc) = (d, acc ++ l') ∧ SubL l' (mapV (loadedRec d.fs) l) := by
+  induction l generalizing acc with
+  | nil => exact ⟨[], by simp, trivial⟩
+  | cons kr t ih =>
+    obtain ⟨f, v, hfile, h1, h2, _⟩ := hl kr List.mem_cons_self
+    have hnd : kr.2.data = none := hn kr List.mem_cons_self
+    have hsub : Sub kr.2 (loadedRec d.fs kr.2) := by
+      refine Or.inr ?_
+      unfold loadedRec
+      obtain ⟨k, r⟩ := kr
+      cases r
+      simp only at hnd
+      simp [hnd]
+    by_cases hflag : hasFlag kr.2.flags (ncOf d.eager) = true
+    · have hstep : loadOne (d, acc) kr = (d, acc ++ [kr]) := by
+        unfold loadOne
+        simp only [hf, hflag, ↓reduceIte]
+      obtain ⟨l', e1, e2⟩ := ih (fun x hx => hn x (List.mem_cons_of_mem _ hx))
+        (fun x hx => hl x (List.mem_cons_of_mem _ hx)) (acc ++ [kr])
+      refine ⟨kr :: l', by simp only [List.foldl_cons, hstep, e1, List.append_assoc, List.singleton_append], ?_⟩
+      exact ⟨rfl, hsub, e2⟩
+    · have hstep : loadOne (d, acc) kr = (d, acc ++ [(kr.1, loadedRec d.fs kr.2)]) := by
+        unfold loadOne loadedRec
+        have hu : u32 (kr.2.pos + kr.2.len) = kr.2.pos + kr.2.len := Nat.mod_eq_of_lt h2
+        have hb : ¬ (kr.2.pos + kr.2.len < kr.2.pos ∨ kr.2.pos + kr.2.len > f.length) := by omega
+        simp only [hf, hflag, Bool.false_eq_true, ↓reduceIte, hfile, hu, hb, Option.getD_some]
+      obtain ⟨l', e1, e2⟩ := ih (fun x hx => hn x (List.mem_cons_of_mem _ hx))
+        (fun x hx => hl x (List.mem_cons_of_mem _ hx)) (acc ++ [(kr.1, loadedRec d.fs kr.2)])
+      refine ⟨(kr.1, loadedRec d.fs kr.2) :: l',
+        by simp only [List.foldl_cons, hstep, e1, List.append_assoc, List.singleton_append], ?_⟩
+      exact ⟨rfl, Sub.refl _, e2⟩
 
 end GocoinV.Proofs.C19
